@@ -40,11 +40,62 @@ structure StoPlain (m : Msa) : Prop where
   gc : m.gc = []
   gr : m.gr = []
 
-/-- an alignment without annotation that Stockholm/Pfam carry and `stockholm_write` + `esl_msafile_stockholm_Read`
-    (configuration `cfg`) preserve.  `txt i` is the text the writer prints for row `i`, `enc` sends a written symbol to the
-    stored symbol. -/
+/-- the five parsed `#=GC` fields, in the order `stockholm_write` prints them (= the reader's slots `ss_cons sa_cons pp_cons rf mm`) -/
+def consF (m : Msa) : List (Option Bytes) := [m.ssCons, m.saCons, m.ppCons, m.rf, m.mm]
+def consTag : List Bytes := [bSScons, bSAcons, bPPcons, bRF, bMM]
+def consLT : List Nat := [ltGCSSCONS, ltGCSACONS, ltGCPPCONS, ltGCRF, ltGCMM]
+
+/-- a per-column annotation string that survives: one character per column, none of them white space or NUL
+    (the reader splits off the text with `esl_memtok` and trims trailing blanks/tabs; a block boundary may fall anywhere) -/
+def colTextOk (alen : Nat) (s : Bytes) : Prop := s.length = alen ∧ ∀ c ∈ s, isSpace c = false ∧ c ≠ 0
+
+/-- a `#=GF` one-token value (ID, AC): not empty, no blank/tab/NUL, no LF, does not end in CR -/
+def gfTokOk (v : Bytes) : Prop := nameOk v ∧ (10 : UInt8) ∉ v ∧ v.getLast? ≠ some 13
+
+/-- a `#=GF` free-text value (DE, AU, unparsed tags): does not begin with blank/tab, no NUL, no LF, does not end in CR -/
+def gfTextOk (v : Bytes) : Prop :=
+  (∀ c, v.head? = some c → inDelim blankTab c = false) ∧ (0 : UInt8) ∉ v ∧ (10 : UInt8) ∉ v ∧ v.getLast? ≠ some 13
+
+/-- the annotation covered here: the five `#=GC` consensus lines and the `#=GF` header section
+    (ID, AC, DE, AU, comments, unparsed `#=GF` tags); nothing per sequence, no unparsed `#=GC`, no weights, no cut-offs -/
+structure StoAnn (m : Msa) : Prop where
+  hasw : m.hasw = false
+  sqacc : m.sqacc = none
+  sqdesc : m.sqdesc = none
+  ss : m.ss = none
+  sa : m.sa = none
+  pp : m.pp = none
+  cutoff : m.cutoff = []
+  gs : m.gs = []
+  gc : m.gc = []
+  gr : m.gr = []
+  cons_ok : ∀ k s, (consF m).getD k none = some s → colTextOk m.alen s
+  name_ok : ∀ v, m.name = some v → gfTokOk v
+  acc_ok : ∀ v, m.acc = some v → gfTokOk v
+  desc_ok : ∀ v, m.desc = some v → gfTextOk v
+  au_ok : ∀ v, m.au = some v → gfTextOk v
+  comments : m.comments = []
+  gf : m.gf = []
+
+theorem StoPlain.ann {m : Msa} (h : StoPlain m) : StoAnn m :=
+  { hasw := h.hasw, sqacc := h.sqacc, sqdesc := h.sqdesc, ss := h.ss, sa := h.sa, pp := h.pp, cutoff := h.cutoff
+    gs := h.gs, gc := h.gc, gr := h.gr
+    cons_ok := fun k s hs => by
+      have : (consF m).getD k none = none := by
+        unfold consF; rw [h.ssCons, h.saCons, h.ppCons, h.rf, h.mm]
+        rcases k with _ | _ | _ | _ | _ | _ <;> rfl
+      rw [this] at hs; cases hs
+    name_ok := fun v hv => by rw [h.name] at hv; cases hv
+    acc_ok := fun v hv => by rw [h.acc] at hv; cases hv
+    desc_ok := fun v hv => by rw [h.desc] at hv; cases hv
+    au_ok := fun v hv => by rw [h.au] at hv; cases hv
+    comments := h.comments, gf := h.gf }
+
+/-- an alignment (names, rows, and the annotation `StoAnn` admits) that Stockholm/Pfam carry and `stockholm_write` +
+    `esl_msafile_stockholm_Read` (configuration `cfg`) preserve.  `txt i` is the text the writer prints for row `i`, `enc`
+    sends a written symbol to the stored symbol. -/
 structure StoWritable (abc : Option Abc) (cfg : Cfg) (enc : UInt8 → UInt8) (txt : Nat → Bytes) (m : Msa) : Prop where
-  plain : StoPlain m
+  ann : StoAnn m
   n1 : 1 ≤ m.nseq
   alen1 : 1 ≤ m.alen
   nodup : m.names.Nodup
@@ -54,48 +105,66 @@ structure StoWritable (abc : Option Abc) (cfg : Cfg) (enc : UInt8 → UInt8) (tx
   txt_sym : ∀ i, i < m.nseq → ∀ t ∈ txt i, mapByte cfg.inmap t = (.ok, some (enc t)) ∧ isSpace t = false ∧ t ≠ 0
   row_enc : ∀ i, i < m.nseq → m.stored i = mkRow cfg.digital ((txt i).map enc)
 
+/-- the width the writer pads a sequence name to in a sequence line (`margin - uniqwidth - 1`) -/
+def stoPadW (m : Msa) : Int := ((stoLayout m).margin : Int) - (stoLayout m).uniqwidth - 1
+
 /-- one sequence line: `"%-*s %s\n"` -/
 def stoSqLine (abc : Option Abc) (m : Msa) (pos w i : Nat) : Bytes :=
-  padRight (maxWidth m.names : Nat) (m.names.getD i []) ++ [32] ++ seqChunk abc m i pos w
+  padRight (stoPadW m) (m.names.getD i []) ++ [32] ++ seqChunk abc m i pos w
 
 /-- width of the block that starts at column `pos` -/
 def stoW (m : Msa) (cpl pos : Nat) : Nat := if m.alen - pos > cpl then cpl else m.alen - pos
 
-/-- one block of an alignment without annotation -/
-def stoPlainBlock (abc : Option Abc) (m : Msa) (cpl pos : Nat) : List Bytes :=
-  (if pos > 0 then [[]] else []) ++ (List.range m.nseq).map (stoSqLine abc m pos (stoW m cpl pos))
+/-- the `#=GC` line of slot `g` in the block `[pos, pos+w)`, if the slot holds a string -/
+def gcSlotLines (m : Msa) (pos w g : Nat) : List Bytes :=
+  optLine ((consF m).getD g none) (fun s => gcLine (stoLayout m) (consTag.getD g []) s pos w)
+
+/-- one block: the blank line in front of a later block, the rows, the `#=GC` lines -/
+def stoAnnBlock (abc : Option Abc) (m : Msa) (cpl pos : Nat) : List Bytes :=
+  (if pos > 0 then [[]] else []) ++ ((List.range m.nseq).map (stoSqLine abc m pos (stoW m cpl pos))
+    ++ (gcSlotLines m pos (stoW m cpl pos) 0 ++ (gcSlotLines m pos (stoW m cpl pos) 1 ++ (gcSlotLines m pos (stoW m cpl pos) 2
+    ++ (gcSlotLines m pos (stoW m cpl pos) 3 ++ gcSlotLines m pos (stoW m cpl pos) 4)))))
 
 theorem flatMap_single {α β : Type} (f : α → β) (l : List α) : l.flatMap (fun x => [f x]) = l.map f := by
   induction l with
   | nil => rfl
   | cons a l ih => simp [List.flatMap_cons, ih]
 
-theorem stoLayout_plain (m : Msa) (hp : StoPlain m) (hn : m.names.Nodup) :
-    stoLayout m = { uniq := false, uniqwidth := 0, maxname := maxWidth m.names, maxgf := 2, maxgc := 0, maxgr := 0,
-                    margin := maxWidth m.names + 1 } := by
-  have hd : hasDupNames m.names = false := (hasDupNames_iff m.names).mpr hn
-  unfold stoLayout
-  simp [hd, hp.gf, hp.gc, hp.gr, hp.rf, hp.mm, hp.ssCons, hp.saCons, hp.ppCons, hp.ss, hp.sa, hp.pp, maxWidth]
+/-- the header section: `# STOCKHOLM 1.0`, `#=GF ID/AC/DE/AU`, the blank line -/
+def stoAnnHead (m : Msa) : List Bytes :=
+  [bSto10] ++ (optLine m.name (gfLine (stoLayout m) bID) ++ (optLine m.acc (gfLine (stoLayout m) bAC)
+    ++ (optLine m.desc (gfLine (stoLayout m) bDE) ++ (optLine m.au (gfLine (stoLayout m) bAU) ++ [[]]))))
 
-theorem stoBody_plain (pfam : Bool) (abc : Option Abc) (m : Msa) (hp : StoPlain m) (hn : m.names.Nodup) :
+theorem stoBody_ann (pfam : Bool) (abc : Option Abc) (m : Msa) (hp : StoAnn m) (hn : m.names.Nodup) :
     stockholmBodyLines pfam abc m
-      = [bSto10, []] ++ (blockStarts m.alen (stoCpl pfam m)).flatMap (stoPlainBlock abc m (stoCpl pfam m)) := by
+      = stoAnnHead m ++ (blockStarts m.alen (stoCpl pfam m)).flatMap (stoAnnBlock abc m (stoCpl pfam m)) := by
+  have hd : hasDupNames m.names = false := (hasDupNames_iff m.names).mpr hn
+  have hu : (stoLayout m).uniq = false := by unfold stoLayout; simp [hd]
+  have huw : (stoLayout m).uniqwidth = 0 := by unfold stoLayout; simp [hd]
   have hseq : ∀ pos acpl, stoSeqLines (stoLayout m) abc m pos acpl = fun i => [stoSqLine abc m pos acpl i] := by
     intro pos acpl
     funext i
-    unfold stoSeqLines stoSqLine stoName
-    rw [stoLayout_plain m hp hn]
-    simp [hp.ss, hp.sa, hp.pp, hp.gr, optRow, optLine]
-  have hblk : stoBlockLines (stoLayout m) abc m (stoCpl pfam m) = stoPlainBlock abc m (stoCpl pfam m) := by
+    unfold stoSeqLines stoSqLine stoName stoPadW
+    simp [hu, hp.ss, hp.sa, hp.pp, hp.gr, optRow, optLine]
+  have e1 : str "SS_cons" = bSScons := by decide +kernel
+  have e2 : str "SA_cons" = bSAcons := by decide +kernel
+  have e3 : str "PP_cons" = bPPcons := by decide +kernel
+  have e4 : str "RF" = bRF := by decide +kernel
+  have e5 : str "MM" = bMM := by decide +kernel
+  have hblk : stoBlockLines (stoLayout m) abc m (stoCpl pfam m) = stoAnnBlock abc m (stoCpl pfam m) := by
     funext pos
-    unfold stoBlockLines stoPlainBlock stoW
-    simp only [hseq, flatMap_single]
-    simp [hp.ssCons, hp.saCons, hp.ppCons, hp.rf, hp.mm, hp.gc, optLine]
-  have hhead : stoHeadLines (stoLayout m) m = [bSto10, []] := by
-    unfold stoHeadLines cutLines
-    rw [stoLayout_plain m hp hn]
-    simp [hp.comments, hp.name, hp.acc, hp.desc, hp.au, hp.cutoff, hp.gf]
-    decide +kernel
+    unfold stoBlockLines stoAnnBlock stoW gcSlotLines
+    simp only [hseq, flatMap_single, hp.gc, List.map_nil, List.append_nil, e1, e2, e3, e4, e5, consF, consTag,
+      List.getD_cons_zero, List.getD_cons_succ, List.append_assoc]
+  have f1 : str "ID" = bID := by decide +kernel
+  have f2 : str "AC" = bAC := by decide +kernel
+  have f3 : str "DE" = bDE := by decide +kernel
+  have f4 : str "AU" = bAU := by decide +kernel
+  have f5 : str "# STOCKHOLM 1.0" = bSto10 := by decide +kernel
+  have hhead : stoHeadLines (stoLayout m) m = stoAnnHead m := by
+    unfold stoHeadLines cutLines stoAnnHead
+    simp only [hu, hp.comments, hp.cutoff, hp.gf, f1, f2, f3, f4, f5]
+    cases m.name <;> cases m.acc <;> cases m.desc <;> cases m.au <;> simp [optLine]
   have hgs : stoGSLines (stoLayout m) m = [] := by
     unfold stoGSLines
     simp [hp.hasw, hp.sqacc, hp.sqdesc, hp.gs]
@@ -183,32 +252,81 @@ theorem stoStep_sqline (cfg : Cfg) (st : StoSt) (nm sp c : Bytes) (hl : st.lead 
 
 /-! ## the reader's state while it reads such a file -/
 
-/-- the parts of the state that lines without annotation never touch -/
-structure Frozen (st : StoSt) : Prop where
-  lead : st.lead = false
-  hasw : st.hasw = false
-  name : st.name = none
-  desc : st.desc = none
-  acc : st.acc = none
-  au : st.au = none
-  cons : st.cons = List.replicate 5 none
-  sqacc : st.sqacc = none
-  sqdesc : st.sqdesc = none
-  per : st.per = List.replicate 3 none
-  cutset : st.cutset = List.replicate 6 false
-  comments : st.comments = []
-  gf : st.gf = []
-  gsTags : st.gsTags = []
-  gs : st.gs = []
-  gcTags : st.gcTags = []
-  gc : st.gc = []
-  grTags : st.grTags = []
-  gr : st.gr = []
+/-- the annotation part of the reader's state -/
+structure Ann where
+  lead : Bool
+  hasw : Bool
+  name : Option Bytes
+  desc : Option Bytes
+  acc : Option Bytes
+  au : Option Bytes
+  cons : List (Option Bytes)
+  consLen : List Nat
+  sqacc : OptRows
+  sqdesc : OptRows
+  per : List OptRows
+  cutset : List Bool
+  comments : List Bytes
+  gf : List (Bytes × Bytes)
+  gsTags : List Bytes
+  gs : List (List (Option Bytes))
+  gcTags : List Bytes
+  gc : List (Option Bytes)
+  grTags : List Bytes
+  gr : List (List (Option Bytes))
+
+def annOf (st : StoSt) : Ann :=
+  { lead := st.lead, hasw := st.hasw, name := st.name, desc := st.desc, acc := st.acc, au := st.au, cons := st.cons,
+    consLen := st.consLen, sqacc := st.sqacc, sqdesc := st.sqdesc, per := st.per, cutset := st.cutset, comments := st.comments,
+    gf := st.gf, gsTags := st.gsTags, gs := st.gs, gcTags := st.gcTags, gc := st.gc, grTags := st.grTags, gr := st.gr }
+
+/-- slot `k` of the consensus 5-array once `p` columns of it have been read -/
+def consVal (m : Msa) (p k : Nat) : Option Bytes :=
+  match (consF m).getD k none with
+  | some s => if p = 0 then none else some (s.take p)
+  | none => none
+
+/-- the annotation part of the state inside the block `[pos, pos+w)`, when the first `g` of the five `#=GC` slots have
+    been dealt with: the header section is complete, slots `< g` have reached column `pos + w`, the others column `pos`;
+    the rest is untouched -/
+structure Frozen (m : Msa) (pos w g : Nat) (a : Ann) : Prop where
+  lead : a.lead = false
+  hasw : a.hasw = false
+  name : a.name = m.name
+  desc : a.desc = m.desc
+  acc : a.acc = m.acc
+  au : a.au = m.au
+  cons_len : a.cons.length = 5
+  consLen_len : a.consLen.length = 5
+  cons : ∀ k, k < 5 → a.cons[k]? = some (consVal m (if k < g then pos + w else pos) k)
+  consLen : ∀ k, k < 5 → ((consF m).getD k none).isSome = true → a.consLen[k]? = some (if k < g then pos + w else pos)
+  sqacc : a.sqacc = none
+  sqdesc : a.sqdesc = none
+  per : a.per = List.replicate 3 none
+  cutset : a.cutset = List.replicate 6 false
+  comments : a.comments = m.comments
+  gf : a.gf = m.gf
+  gsTags : a.gsTags = []
+  gs : a.gs = []
+  gcTags : a.gcTags = []
+  gc : a.gc = []
+  grTags : a.grTags = []
+  gr : a.gr = []
+
+/-- line types of the `#=GC` lines of a block -/
+def gcLT (m : Msa) : List Nat := ((consF m).zip consLT).filterMap (fun p => p.1.map (fun _ => p.2))
+
+/-- the lines of a block: (line type, sequence index) -/
+def blockSpec (m : Msa) : List (Nat × Option Nat) :=
+  (List.range m.nseq).map (fun i => (ltSQ, some i)) ++ (gcLT m).map (fun lt => (lt, none))
+
+/-- number of `#=GC` lines among the first `g` slots -/
+def cntSet (m : Msa) (g : Nat) : Nat := ((((consF m).zip consLT).take g).filterMap (fun p => p.1.map (fun _ => p.2))).length
 
 /-- inside the block that starts at column `pos` and is `w` columns wide: `jn` names are known, `jb` block lines are
-    recorded, `j` sequence lines of this block have been read -/
-structure InBlk (cfg : Cfg) (enc : UInt8 → UInt8) (txt : Nat → Bytes) (m : Msa) (pos w jn jb j : Nat) (st : StoSt) : Prop where
-  fr : Frozen st
+    recorded, `j` sequence lines and `k` lines in all of this block have been read, `g` `#=GC` slots are done -/
+structure InBlk (cfg : Cfg) (enc : UInt8 → UInt8) (txt : Nat → Bytes) (m : Msa) (pos w jn jb j k g : Nat) (st : StoSt) : Prop where
+  fr : Frozen m pos w g (annOf st)
   alen : st.alen = pos
   nblock : st.nblock = 0 ↔ pos = 0
   names : st.names = m.names.take jn
@@ -226,14 +344,22 @@ structure InBlk (cfg : Cfg) (enc : UInt8 → UInt8) (txt : Nat → Bytes) (m : M
   blt_len : st.blt.length = st.balloc
   bidx_len : st.bidx.length = st.balloc
   nrec : jb ≤ st.balloc
-  blt : ∀ i, i < jb → st.blt[i]? = some (some ltSQ)
-  bidx : ∀ i, i < jb → st.bidx[i]? = some (some (some i))
-  npb : pos ≠ 0 → st.npb = m.nseq
-  bi : st.bi = j
+  blt : ∀ i, i < jb → st.blt[i]? = some ((blockSpec m)[i]?.map (·.1))
+  bidx : ∀ i, i < jb → st.bidx[i]? = some ((blockSpec m)[i]?.map (·.2))
+  npb : pos ≠ 0 → st.npb = (blockSpec m).length
+  bi : st.bi = k
   si : st.si = j
   nseqB : st.nseqB = j
-  alenB : j ≠ 0 → st.alenB = w
-  inBlock : st.inBlock = decide (j ≠ 0)
+  alenB : k ≠ 0 → st.alenB = w
+  inBlock : st.inBlock = decide (k ≠ 0)
+
+theorem blockSpec_sq (m : Msa) (i : Nat) (hi : i < m.nseq) : (blockSpec m)[i]? = some (ltSQ, some i) := by
+  unfold blockSpec
+  rw [List.getElem?_append_left (by simpa using hi)]
+  simp [hi]
+
+theorem blockSpec_len (m : Msa) : (blockSpec m).length = m.nseq + cntSet m 5 := by
+  simp [blockSpec, gcLT, cntSet, consF, consLT]
 
 theorem getE_of {α : Type} {l : List α} {i : Nat} {x : α} (h : l[i]? = some x) : getE l i = .ok x := by
   simp [getE, h]
@@ -251,9 +377,9 @@ theorem nodup_not_mem_take (l : List Bytes) (hn : l.Nodup) (j : Nat) (hj : j < l
   exact (List.pairwise_iff_getElem.mp hn i j (by omega) hj hij) hE
 
 /-- a new name: `stockholm_get_seqidx` stores it as sequence `jn` -/
-theorem getSeqIdx_new (cfg : Cfg) (enc : UInt8 → UInt8) (txt : Nat → Bytes) (m : Msa) (w jn jb j : Nat) (st : StoSt)
-    (h : InBlk cfg enc txt m 0 w jn jb j st) (hjn : jn < m.nseq) (hnd : m.names.Nodup) :
-    ∃ st1, getSeqIdx st (m.names.getD jn []) = .ok (st1, jn) ∧ InBlk cfg enc txt m 0 w (jn + 1) jb j st1 := by
+theorem getSeqIdx_new (cfg : Cfg) (enc : UInt8 → UInt8) (txt : Nat → Bytes) (m : Msa) (w jn jb j k g : Nat) (st : StoSt)
+    (h : InBlk cfg enc txt m 0 w jn jb j k g st) (hjn : jn < m.nseq) (hnd : m.names.Nodup) :
+    ∃ st1, getSeqIdx st (m.names.getD jn []) = .ok (st1, jn) ∧ InBlk cfg enc txt m 0 w (jn + 1) jb j k g st1 := by
   have hjn' : jn < m.names.length := hjn
   have hlen : st.names.length = jn := by rw [h.names, List.length_take]; omega
   have hnone : st.names.findIdx? (· == m.names.getD jn []) = none := by
@@ -283,14 +409,14 @@ theorem getSeqIdx_new (cfg : Cfg) (enc : UInt8 → UInt8) (txt : Nat → Bytes) 
     exact
       { fr :=
           { lead := hfr.lead, hasw := hfr.hasw, name := hfr.name, desc := hfr.desc, acc := hfr.acc, au := hfr.au,
-            cons := hfr.cons
-            sqacc := by simp [pdExpandSeq, msaExpand, hfr.sqacc]
-            sqdesc := by simp [pdExpandSeq, msaExpand, hfr.sqdesc]
-            per := by simp [pdExpandSeq, msaExpand, hfr.per]
+            cons_len := hfr.cons_len, consLen_len := hfr.consLen_len, cons := hfr.cons, consLen := hfr.consLen
+            sqacc := by have := hfr.sqacc; simp only [annOf] at this ⊢; simp [pdExpandSeq, msaExpand, this]
+            sqdesc := by have := hfr.sqdesc; simp only [annOf] at this ⊢; simp [pdExpandSeq, msaExpand, this]
+            per := by have := hfr.per; simp only [annOf] at this ⊢; simp [pdExpandSeq, msaExpand, this]
             cutset := hfr.cutset, comments := hfr.comments, gf := hfr.gf, gsTags := hfr.gsTags
-            gs := by simp [pdExpandSeq, msaExpand, hfr.gs]
+            gs := by have := hfr.gs; simp only [annOf] at this ⊢; simp [pdExpandSeq, msaExpand, this]
             gcTags := hfr.gcTags, gc := hfr.gc, grTags := hfr.grTags
-            gr := by simp [pdExpandSeq, msaExpand, hfr.gr] }
+            gr := by have := hfr.gr; simp only [annOf] at this ⊢; simp [pdExpandSeq, msaExpand, this] }
         alen := h.alen, nblock := h.nblock
         names := by show st.names ++ [_] = _; rw [h.names, hnames1]
         nseq := by show st.nseq + 1 = (st.names ++ [_]).length; rw [h.nseq]; simp
@@ -328,11 +454,7 @@ theorem getSeqIdx_new (cfg : Cfg) (enc : UInt8 → UInt8) (txt : Nat → Bytes) 
   · simp only [hge, if_false]
     refine ⟨_, rfl, ?_⟩
     exact
-      { fr :=
-          { lead := hfr.lead, hasw := hfr.hasw, name := hfr.name, desc := hfr.desc, acc := hfr.acc, au := hfr.au,
-            cons := hfr.cons, sqacc := hfr.sqacc, sqdesc := hfr.sqdesc, per := hfr.per
-            cutset := hfr.cutset, comments := hfr.comments, gf := hfr.gf, gsTags := hfr.gsTags, gs := hfr.gs
-            gcTags := hfr.gcTags, gc := hfr.gc, grTags := hfr.grTags, gr := hfr.gr }
+      { fr := hfr
         alen := h.alen, nblock := h.nblock
         names := by show st.names ++ [_] = _; rw [h.names, hnames1]
         nseq := by show st.nseq + 1 = (st.names ++ [_]).length; rw [h.nseq]; simp
@@ -351,9 +473,10 @@ theorem set_rec {α : Type} (l : List α) (j : Nat) (v : α) (f : Nat → α) (h
   · simp only [e, if_false]; exact h i (by omega)
 
 /-- first block: the line is recorded as line `j` of the block -/
-theorem recordLine_new (cfg : Cfg) (enc : UInt8 → UInt8) (txt : Nat → Bytes) (m : Msa) (pos w jn j : Nat) (st : StoSt)
-    (h : InBlk cfg enc txt m pos w jn j j st) :
-    ∃ st2, recordLine st ltSQ (some j) = .ok st2 ∧ InBlk cfg enc txt m pos w jn (j + 1) j st2 := by
+theorem recordLine_new (cfg : Cfg) (enc : UInt8 → UInt8) (txt : Nat → Bytes) (m : Msa) (pos w jn jq j g : Nat) (st : StoSt)
+    (lt : Nat) (bx : Option Nat) (hspec : (blockSpec m)[j]? = some (lt, bx))
+    (h : InBlk cfg enc txt m pos w jn j jq j g st) :
+    ∃ st2, recordLine st lt bx = .ok st2 ∧ InBlk cfg enc txt m pos w jn (j + 1) jq j g st2 := by
   have hfr := h.fr
   have hbi := h.bi
   have hnr := h.nrec
@@ -372,11 +495,7 @@ theorem recordLine_new (cfg : Cfg) (enc : UInt8 → UInt8) (txt : Nat → Bytes)
     rw [hbi1, setE_ok _ hl1, setE_ok _ hl2]
     refine ⟨_, rfl, ?_⟩
     exact
-      { fr :=
-          { lead := hfr.lead, hasw := hfr.hasw, name := hfr.name, desc := hfr.desc, acc := hfr.acc, au := hfr.au,
-            cons := hfr.cons, sqacc := hfr.sqacc, sqdesc := hfr.sqdesc, per := hfr.per
-            cutset := hfr.cutset, comments := hfr.comments, gf := hfr.gf, gsTags := hfr.gsTags, gs := hfr.gs
-            gcTags := hfr.gcTags, gc := hfr.gc, grTags := hfr.grTags, gr := hfr.gr }
+      { fr := hfr
         alen := h.alen, nblock := h.nblock, names := h.names, nseq := h.nseq, alloc := h.alloc
         apos := h.apos, rows_len := h.rows_len, rows_done := h.rows_done, rows_todo := h.rows_todo
         salloc := h.salloc, sqlen_len := h.sqlen_len, sqlen_done := h.sqlen_done, sqlen_todo := h.sqlen_todo
@@ -388,8 +507,10 @@ theorem recordLine_new (cfg : Cfg) (enc : UInt8 → UInt8) (txt : Nat → Bytes)
           show ((st.bidx ++ List.replicate st.balloc none).set j _).length = st.balloc * 2
           simp [h.bidx_len]; omega
         nrec := by show j + 1 ≤ st.balloc * 2; omega
-        blt := set_rec _ j _ (fun _ => some ltSQ) hl1 (fun i hi => getElem?_append_some _ _ _ _ (h.blt i hi)) rfl
-        bidx := set_rec _ j _ (fun i => some (some i)) hl2 (fun i hi => getElem?_append_some _ _ _ _ (h.bidx i hi)) rfl
+        blt := set_rec _ j _ (fun i => (blockSpec m)[i]?.map (·.1)) hl1 (fun i hi => getElem?_append_some _ _ _ _ (h.blt i hi))
+          (by simp [hspec])
+        bidx := set_rec _ j _ (fun i => (blockSpec m)[i]?.map (·.2)) hl2 (fun i hi => getElem?_append_some _ _ _ _ (h.bidx i hi))
+          (by simp [hspec])
         npb := h.npb, bi := rfl, si := h.si, nseqB := h.nseqB, alenB := h.alenB, inBlock := h.inBlock }
   · have hb' : (st.bi == st.balloc) = false := by simp [hb]
     simp only [hb', Bool.false_eq_true, if_false]
@@ -398,11 +519,7 @@ theorem recordLine_new (cfg : Cfg) (enc : UInt8 → UInt8) (txt : Nat → Bytes)
     rw [hbi, setE_ok _ hl1, setE_ok _ hl2]
     refine ⟨_, rfl, ?_⟩
     exact
-      { fr :=
-          { lead := hfr.lead, hasw := hfr.hasw, name := hfr.name, desc := hfr.desc, acc := hfr.acc, au := hfr.au,
-            cons := hfr.cons, sqacc := hfr.sqacc, sqdesc := hfr.sqdesc, per := hfr.per
-            cutset := hfr.cutset, comments := hfr.comments, gf := hfr.gf, gsTags := hfr.gsTags, gs := hfr.gs
-            gcTags := hfr.gcTags, gc := hfr.gc, grTags := hfr.grTags, gr := hfr.gr }
+      { fr := hfr
         alen := h.alen, nblock := h.nblock, names := h.names, nseq := h.nseq, alloc := h.alloc
         apos := h.apos, rows_len := h.rows_len, rows_done := h.rows_done, rows_todo := h.rows_todo
         salloc := h.salloc, sqlen_len := h.sqlen_len, sqlen_done := h.sqlen_done, sqlen_todo := h.sqlen_todo
@@ -410,27 +527,32 @@ theorem recordLine_new (cfg : Cfg) (enc : UInt8 → UInt8) (txt : Nat → Bytes)
         blt_len := by show (st.blt.set j _).length = st.balloc; simp [h.blt_len]
         bidx_len := by show (st.bidx.set j _).length = st.balloc; simp [h.bidx_len]
         nrec := by show j + 1 ≤ st.balloc; omega
-        blt := set_rec _ j _ (fun _ => some ltSQ) hl1 h.blt rfl
-        bidx := set_rec _ j _ (fun i => some (some i)) hl2 h.bidx rfl
+        blt := set_rec _ j _ (fun i => (blockSpec m)[i]?.map (·.1)) hl1 h.blt (by simp [hspec])
+        bidx := set_rec _ j _ (fun i => (blockSpec m)[i]?.map (·.2)) hl2 h.bidx (by simp [hspec])
         npb := h.npb, bi := rfl, si := h.si, nseqB := h.nseqB, alenB := h.alenB, inBlock := h.inBlock }
 
 /-- first block: a sequence line names a new sequence -/
 theorem sqLocate_first (cfg : Cfg) (enc : UInt8 → UInt8) (txt : Nat → Bytes) (m : Msa) (w j : Nat) (st : StoSt)
-    (h : InBlk cfg enc txt m 0 w j j j st) (hj : j < m.nseq) (hnd : m.names.Nodup) :
-    ∃ st2, sqLocate st (m.names.getD j []) = .ok (st2, j) ∧ InBlk cfg enc txt m 0 w (j + 1) (j + 1) j st2 := by
+    (h : InBlk cfg enc txt m 0 w j j j j 0 st) (hj : j < m.nseq) (hnd : m.names.Nodup) :
+    ∃ st2, sqLocate st (m.names.getD j []) = .ok (st2, j) ∧ InBlk cfg enc txt m 0 w (j + 1) (j + 1) j j 0 st2 := by
   have hnb : st.nblock = 0 := h.nblock.mpr rfl
   have hlen : st.names.length = j := by rw [h.names, List.length_take]; have : j < m.names.length := hj; omega
   have hsi : ¬ (st.si < st.nseq) := by rw [h.si, h.nseq, hlen]; omega
-  obtain ⟨st1, h1, hI1⟩ := getSeqIdx_new cfg enc txt m w j j j st h hj hnd
-  obtain ⟨st2, h2, hI2⟩ := recordLine_new cfg enc txt m 0 w (j + 1) j st1 hI1
+  obtain ⟨st1, h1, hI1⟩ := getSeqIdx_new cfg enc txt m w j j j j 0 st h hj hnd
+  obtain ⟨st2, h2, hI2⟩ := recordLine_new cfg enc txt m 0 w (j + 1) j j 0 st1 ltSQ (some j) (blockSpec_sq m j hj) hI1
   refine ⟨st2, ?_, hI2⟩
   unfold sqLocate sqSeqIdx
   simp only [hnb, beq_self_eq_true, if_true, hsi, if_false, h1, h2]
 
 /-- later blocks: the line must be the one recorded for this position -/
 theorem sqLocate_later (cfg : Cfg) (enc : UInt8 → UInt8) (txt : Nat → Bytes) (m : Msa) (pos w j : Nat) (st : StoSt)
-    (h : InBlk cfg enc txt m pos w m.nseq m.nseq j st) (hj : j < m.nseq) (hpos : pos ≠ 0) :
+    (h : InBlk cfg enc txt m pos w m.nseq (blockSpec m).length j j 0 st) (hj : j < m.nseq) (hpos : pos ≠ 0) :
     sqLocate st (m.names.getD j []) = .ok (st, j) := by
+  have hjb : j < (blockSpec m).length := by rw [blockSpec_len]; omega
+  have hblt := h.blt j hjb
+  have hbidx := h.bidx j hjb
+  rw [blockSpec_sq m j hj] at hblt hbidx
+  simp only [Option.map_some] at hblt hbidx
   have hnb : (st.nblock == 0) = false := by
     have : st.nblock ≠ 0 := fun e => hpos (h.nblock.mp e)
     simpa using this
@@ -440,16 +562,16 @@ theorem sqLocate_later (cfg : Cfg) (enc : UInt8 → UInt8) (txt : Nat → Bytes)
   have hsq : j < st.sqalloc := by have := h.alloc; rw [hnames] at this; have : j < m.names.length := hj; omega
   unfold sqLocate expectLine expectSeq sqnameAt
   have hge : ¬ (st.npb ≤ j) := by rw [h.npb hpos]; omega
-  simp only [hnb, Bool.false_eq_true, if_false, hge, h.bi, getE_of (h.blt j hj), getE_of (h.bidx j hj), hsq, if_true, hnm]
+  simp only [hnb, Bool.false_eq_true, if_false, hge, h.bi, getE_of hblt, getE_of hbidx, hsq, if_true, hnm]
   simp
 
 /-- the rest of `stockholm_parse_sq` once the sequence is located: the piece is appended to row `j` -/
-theorem parseSq_after (cfg : Cfg) (enc : UInt8 → UInt8) (txt : Nat → Bytes) (m : Msa) (pos w jn jb j : Nat) (st st2 : StoSt)
+theorem parseSq_after (cfg : Cfg) (enc : UInt8 → UInt8) (txt : Nat → Bytes) (m : Msa) (pos w jn jb j k g : Nat) (st st2 : StoSt)
     (p nm c : Bytes) (hm : memtok p blankTab = some (nm, c)) (hc : ChunkOk c) (hloc : sqLocate st nm = .ok (st2, j))
-    (h2 : InBlk cfg enc txt m pos w jn jb j st2) (hj : j < jn) (hjn : jn ≤ m.nseq)
+    (h2 : InBlk cfg enc txt m pos w jn jb j k g st2) (hj : j < jn) (hjn : jn ≤ m.nseq)
     (hcj : c = ((txt j).drop pos).take w) (hw : 1 ≤ w) (hpw : pos + w ≤ m.alen) (htl : (txt j).length = m.alen)
     (hsym : ∀ t ∈ txt j, mapByte cfg.inmap t = (.ok, some (enc t))) :
-    ∃ st3, parseSq cfg st p = .ok st3 ∧ InBlk cfg enc txt m pos w jn jb (j + 1) st3 := by
+    ∃ st3, parseSq cfg st p = .ok st3 ∧ InBlk cfg enc txt m pos w jn jb (j + 1) (k + 1) g st3 := by
   have hfr := h2.fr
   have hjs : j < m.nseq := by omega
   have hjl : j < st2.names.length := by
@@ -475,13 +597,13 @@ theorem parseSq_after (cfg : Cfg) (enc : UInt8 → UInt8) (txt : Nat → Bytes) 
     rw [rowLen_phyRowAt, List.length_take, htl]; omega
   have hdup : (decide (st2.bi > 0) && (pos == pos + st2.alenB)) = false := by
     rw [h2.bi]
-    by_cases hj0 : j = 0
+    by_cases hj0 : k = 0
     · simp [hj0]
     · rw [h2.alenB hj0]; have : ¬ (w = 0) := by omega
       simp [this]
   have hwid : (st2.bi != 0 && w != st2.alenB) = false := by
     rw [h2.bi]
-    by_cases hj0 : j = 0
+    by_cases hj0 : k = 0
     · simp [hj0]
     · rw [h2.alenB hj0]; simp
   have hl1 : j < st2.rows.length := by rw [h2.rows_len]; exact hsq
@@ -491,11 +613,7 @@ theorem parseSq_after (cfg : Cfg) (enc : UInt8 → UInt8) (txt : Nat → Bytes) 
     bne_self_eq_false, hcat, hrl', hcl, hwid, setE_ok _ hl1, setE_ok _ hl2]
   refine ⟨_, rfl, ?_⟩
   exact
-    { fr :=
-        { lead := hfr.lead, hasw := hfr.hasw, name := hfr.name, desc := hfr.desc, acc := hfr.acc, au := hfr.au,
-          cons := hfr.cons, sqacc := hfr.sqacc, sqdesc := hfr.sqdesc, per := hfr.per
-          cutset := hfr.cutset, comments := hfr.comments, gf := hfr.gf, gsTags := hfr.gsTags, gs := hfr.gs
-          gcTags := hfr.gcTags, gc := hfr.gc, grTags := hfr.grTags, gr := hfr.gr }
+    { fr := hfr
       alen := by first | rfl | exact h2.alen
       nblock := h2.nblock, names := h2.names, nseq := h2.nseq, alloc := h2.alloc, apos := h2.apos
       rows_len := by show (st2.rows.set j _).length = _; simp [h2.rows_len]
@@ -511,17 +629,17 @@ theorem parseSq_after (cfg : Cfg) (enc : UInt8 → UInt8) (txt : Nat → Bytes) 
         rw [List.getElem?_set_ne (by omega)]; exact h2.sqlen_todo i (by omega) hi2
       bpos := h2.bpos, blt_len := h2.blt_len, bidx_len := h2.bidx_len, nrec := h2.nrec, blt := h2.blt, bidx := h2.bidx
       npb := h2.npb
-      bi := by show st2.bi + 1 = j + 1; rw [h2.bi]
+      bi := by show st2.bi + 1 = k + 1; rw [h2.bi]
       si := rfl
       nseqB := by show st2.nseqB + 1 = j + 1; rw [h2.nseqB]
       alenB := fun _ => by first | rfl | exact hcl
-      inBlock := by show true = decide (j + 1 ≠ 0); simp }
+      inBlock := by show true = decide (k + 1 ≠ 0); simp }
 
 /-- the shape of a written sequence line -/
 theorem sqline_shape (abc : Option Abc) (cfg : Cfg) (enc : UInt8 → UInt8) (txt : Nat → Bytes) (m : Msa)
     (W : StoWritable abc cfg enc txt m) (pos w j : Nat) (hj : j < m.nseq) (hw : 1 ≤ w) (hpw : pos + w ≤ m.alen) :
     ∃ sp c, stoSqLine abc m pos w j = m.names.getD j [] ++ sp ++ c ∧ SpOk sp ∧ ChunkOk c ∧ c = ((txt j).drop pos).take w := by
-  refine ⟨List.replicate ((maxWidth m.names : Int).natAbs - (m.names.getD j []).length) 32 ++ [32], ((txt j).drop pos).take w,
+  refine ⟨List.replicate ((stoPadW m).natAbs - (m.names.getD j []).length) 32 ++ [32], ((txt j).drop pos).take w,
     ?_, ⟨by simp, ?_⟩, ⟨?_, ?_⟩, rfl⟩
   · simp [stoSqLine, padRight, W.chunk_eq j hj]
   · intro c hc
@@ -537,13 +655,13 @@ theorem sqline_shape (abc : Option Abc) (cfg : Cfg) (enc : UInt8 → UInt8) (txt
 
 /-- one sequence line of the first block -/
 theorem sqline_first (abc : Option Abc) (cfg : Cfg) (enc : UInt8 → UInt8) (txt : Nat → Bytes) (m : Msa)
-    (W : StoWritable abc cfg enc txt m) (w j : Nat) (st : StoSt) (h : InBlk cfg enc txt m 0 w j j j st)
+    (W : StoWritable abc cfg enc txt m) (w j : Nat) (st : StoSt) (h : InBlk cfg enc txt m 0 w j j j j 0 st)
     (hj : j < m.nseq) (hw : 1 ≤ w) (hpw : w ≤ m.alen) :
-    ∃ st3, stoStep cfg st (stoSqLine abc m 0 w j) = .inl st3 ∧ InBlk cfg enc txt m 0 w (j + 1) (j + 1) (j + 1) st3 := by
+    ∃ st3, stoStep cfg st (stoSqLine abc m 0 w j) = .inl st3 ∧ InBlk cfg enc txt m 0 w (j + 1) (j + 1) (j + 1) (j + 1) 0 st3 := by
   obtain ⟨sp, c, hline, hsp, hc, hcj⟩ := sqline_shape abc cfg enc txt m W 0 w j hj hw (by omega)
   obtain ⟨st2, hloc, h2⟩ := sqLocate_first cfg enc txt m w j st h hj W.nodup
   have hn := W.name_ok j hj
-  obtain ⟨st3, hp, h3⟩ := parseSq_after cfg enc txt m 0 w (j + 1) (j + 1) j st st2 _ _ c
+  obtain ⟨st3, hp, h3⟩ := parseSq_after cfg enc txt m 0 w (j + 1) (j + 1) j j 0 st st2 _ _ c
     (memtok_sqline _ sp c hn.1 hsp hc) hc hloc h2 (by omega) (by omega) hcj hw (by omega) (W.txt_len j hj)
     (fun t ht => (W.txt_sym j hj t ht).1)
   refine ⟨st3, ?_, h3⟩
@@ -551,13 +669,14 @@ theorem sqline_first (abc : Option Abc) (cfg : Cfg) (enc : UInt8 → UInt8) (txt
 
 /-- one sequence line of a later block -/
 theorem sqline_later (abc : Option Abc) (cfg : Cfg) (enc : UInt8 → UInt8) (txt : Nat → Bytes) (m : Msa)
-    (W : StoWritable abc cfg enc txt m) (pos w j : Nat) (st : StoSt) (h : InBlk cfg enc txt m pos w m.nseq m.nseq j st)
+    (W : StoWritable abc cfg enc txt m) (pos w j : Nat) (st : StoSt) (h : InBlk cfg enc txt m pos w m.nseq (blockSpec m).length j j 0 st)
     (hpos : pos ≠ 0) (hj : j < m.nseq) (hw : 1 ≤ w) (hpw : pos + w ≤ m.alen) :
-    ∃ st3, stoStep cfg st (stoSqLine abc m pos w j) = .inl st3 ∧ InBlk cfg enc txt m pos w m.nseq m.nseq (j + 1) st3 := by
+    ∃ st3, stoStep cfg st (stoSqLine abc m pos w j) = .inl st3 ∧
+      InBlk cfg enc txt m pos w m.nseq (blockSpec m).length (j + 1) (j + 1) 0 st3 := by
   obtain ⟨sp, c, hline, hsp, hc, hcj⟩ := sqline_shape abc cfg enc txt m W pos w j hj hw hpw
   have hloc := sqLocate_later cfg enc txt m pos w j st h hj hpos
   have hn := W.name_ok j hj
-  obtain ⟨st3, hp, h3⟩ := parseSq_after cfg enc txt m pos w m.nseq m.nseq j st st _ _ c
+  obtain ⟨st3, hp, h3⟩ := parseSq_after cfg enc txt m pos w m.nseq (blockSpec m).length j j 0 st st _ _ c
     (memtok_sqline _ sp c hn.1 hsp hc) hc hloc h hj (Nat.le_refl _) hcj hw hpw (W.txt_len j hj)
     (fun t ht => (W.txt_sym j hj t ht).1)
   refine ⟨st3, ?_, h3⟩
@@ -567,9 +686,9 @@ theorem sqline_later (abc : Option Abc) (cfg : Cfg) (enc : UInt8 → UInt8) (txt
 
 /-- the sequence lines of the first block -/
 theorem sqlines_first (abc : Option Abc) (cfg : Cfg) (enc : UInt8 → UInt8) (txt : Nat → Bytes) (m : Msa)
-    (W : StoWritable abc cfg enc txt m) (w : Nat) (st : StoSt) (h : InBlk cfg enc txt m 0 w 0 0 0 st) (hw : 1 ≤ w) (hpw : w ≤ m.alen) :
+    (W : StoWritable abc cfg enc txt m) (w : Nat) (st : StoSt) (h : InBlk cfg enc txt m 0 w 0 0 0 0 0 st) (hw : 1 ≤ w) (hpw : w ≤ m.alen) :
     ∀ j, j ≤ m.nseq → ∃ st', stepsFrom (stoStep cfg) st ((List.range j).map (stoSqLine abc m 0 w)) = .inl st' ∧
-      InBlk cfg enc txt m 0 w j j j st' := by
+      InBlk cfg enc txt m 0 w j j j j 0 st' := by
   intro j
   induction j with
   | zero => intro _; exact ⟨st, rfl, h⟩
@@ -583,10 +702,10 @@ theorem sqlines_first (abc : Option Abc) (cfg : Cfg) (enc : UInt8 → UInt8) (tx
 
 /-- the sequence lines of a later block -/
 theorem sqlines_later (abc : Option Abc) (cfg : Cfg) (enc : UInt8 → UInt8) (txt : Nat → Bytes) (m : Msa)
-    (W : StoWritable abc cfg enc txt m) (pos w : Nat) (st : StoSt) (h : InBlk cfg enc txt m pos w m.nseq m.nseq 0 st)
+    (W : StoWritable abc cfg enc txt m) (pos w : Nat) (st : StoSt) (h : InBlk cfg enc txt m pos w m.nseq (blockSpec m).length 0 0 0 st)
     (hpos : pos ≠ 0) (hw : 1 ≤ w) (hpw : pos + w ≤ m.alen) :
     ∀ j, j ≤ m.nseq → ∃ st', stepsFrom (stoStep cfg) st ((List.range j).map (stoSqLine abc m pos w)) = .inl st' ∧
-      InBlk cfg enc txt m pos w m.nseq m.nseq j st' := by
+      InBlk cfg enc txt m pos w m.nseq (blockSpec m).length j j 0 st' := by
   intro j
   induction j with
   | zero => intro _; exact ⟨st, rfl, h⟩
@@ -600,15 +719,17 @@ theorem sqlines_later (abc : Option Abc) (cfg : Cfg) (enc : UInt8 → UInt8) (tx
 
 /-- the end-of-block bookkeeping after a complete block -/
 theorem endBlock_full (cfg : Cfg) (enc : UInt8 → UInt8) (txt : Nat → Bytes) (m : Msa) (pos w w' jn : Nat) (st : StoSt)
-    (h : InBlk cfg enc txt m pos w jn m.nseq m.nseq st) (hjn : jn = m.nseq) (hn1 : 1 ≤ m.nseq) (hw : 1 ≤ w) :
-    ∃ st', endBlock st = .ok st' ∧ InBlk cfg enc txt m (pos + w) w' m.nseq m.nseq 0 st' := by
+    (h : InBlk cfg enc txt m pos w jn (blockSpec m).length m.nseq (blockSpec m).length 5 st) (hjn : jn = m.nseq)
+    (hn1 : 1 ≤ m.nseq) (hw : 1 ≤ w) :
+    ∃ st', endBlock st = .ok st' ∧ InBlk cfg enc txt m (pos + w) w' m.nseq (blockSpec m).length 0 0 0 st' := by
   subst hjn
   have hfr := h.fr
+  have hk0 : (blockSpec m).length ≠ 0 := by rw [blockSpec_len]; omega
   have hn0 : m.nseq ≠ 0 := by omega
   have hnames : st.names = m.names := by rw [h.names]; exact List.take_length
   have hnl : st.names.length = m.nseq := by rw [hnames]; rfl
   have hnseq : st.nseq = m.nseq := by rw [h.nseq, hnl]
-  have hib : st.inBlock = true := by rw [h.inBlock]; simp [hn0]
+  have hib : st.inBlock = true := by rw [h.inBlock]; simp [hk0]
   unfold endBlock
   have c1 : (st.nblock != 0 && st.nseqB != st.nseq) = false := by rw [h.nseqB, hnseq]; simp
   have c2 : (st.nblock == 0 && decide (st.nseqB < st.nseq)) = false := by rw [h.nseqB, hnseq]; simp
@@ -622,10 +743,15 @@ theorem endBlock_full (cfg : Cfg) (enc : UInt8 → UInt8) (txt : Nat → Bytes) 
   exact
     { fr :=
         { lead := hfr.lead, hasw := hfr.hasw, name := hfr.name, desc := hfr.desc, acc := hfr.acc, au := hfr.au,
-          cons := hfr.cons, sqacc := hfr.sqacc, sqdesc := hfr.sqdesc, per := hfr.per
+          cons_len := hfr.cons_len, consLen_len := hfr.consLen_len
+          cons := fun k hk => by
+            have := hfr.cons k hk; rw [if_pos hk] at this; rw [if_neg (Nat.not_lt_zero k)]; exact this
+          consLen := fun k hk hs => by
+            have := hfr.consLen k hk hs; rw [if_pos hk] at this; rw [if_neg (Nat.not_lt_zero k)]; exact this
+          sqacc := hfr.sqacc, sqdesc := hfr.sqdesc, per := hfr.per
           cutset := hfr.cutset, comments := hfr.comments, gf := hfr.gf, gsTags := hfr.gsTags, gs := hfr.gs
           gcTags := hfr.gcTags, gc := hfr.gc, grTags := hfr.grTags, gr := hfr.gr }
-      alen := by show st.alen + st.alenB = pos + w; rw [h.alen, h.alenB hn0]
+      alen := by show st.alen + st.alenB = pos + w; rw [h.alen, h.alenB hk0]
       nblock := by
         show st.nblock + 1 = 0 ↔ pos + w = 0
         constructor <;> intro e <;> omega
@@ -651,6 +777,241 @@ theorem endBlock_full (cfg : Cfg) (enc : UInt8 → UInt8) (txt : Nat → Bytes) 
       alenB := fun e => absurd rfl e
       inBlock := by show false = decide ((0 : Nat) ≠ 0); simp }
 
+/-! ## `#=GC` lines -/
+
+theorem memtok_tok (nm sp rest : Bytes) (hn : nameOk nm) (hs : SpOk sp)
+    (hr : ∀ c, rest.head? = some c → inDelim blankTab c = false) :
+    memtok (nm ++ sp ++ rest) blankTab = some (nm, rest) := by
+  obtain ⟨hne, hnd⟩ := hn
+  obtain ⟨hsne, hs32⟩ := hs
+  have hspd : ∀ x ∈ sp, inDelim blankTab x = true := fun x hx => by rw [hs32 x hx]; decide
+  cases nm with
+  | nil => exact absurd rfl hne
+  | cons a t =>
+    cases sp with
+    | nil => exact absurd rfl hsne
+    | cons s sp' =>
+      have hs' : inDelim blankTab s = true := hspd s (by simp)
+      have ha := hnd a (by simp)
+      rw [List.append_assoc]
+      have h1 : ((a :: t) ++ ((s :: sp') ++ rest)).dropWhile (inDelim blankTab) = (a :: t) ++ ((s :: sp') ++ rest) := by
+        simp [List.dropWhile, ha]
+      have h2 : ((a :: t) ++ ((s :: sp') ++ rest)).takeWhile (fun x => !inDelim blankTab x) = a :: t := by
+        rw [List.takeWhile_append_of_pos (fun x hx => by simp [hnd x hx])]
+        simp [List.takeWhile, hs']
+      have h3 : ((a :: t) ++ ((s :: sp') ++ rest)).dropWhile (fun x => !inDelim blankTab x) = (s :: sp') ++ rest := by
+        rw [List.dropWhile_append_of_pos (fun x hx => by simp [hnd x hx])]
+        simp [List.dropWhile, hs']
+      have h4 : ((s :: sp') ++ rest).dropWhile (inDelim blankTab) = rest := by
+        rw [List.dropWhile_append_of_pos hspd]
+        cases rest with
+        | nil => rfl
+        | cons c r => simp [List.dropWhile, hr c rfl]
+      unfold memtok
+      simp only [h1, h2, h3, h4]
+      simp
+
+theorem filterMap_idx {α β : Type} (f : α → Option β) (l : List α) : ∀ (g : Nat) (x : α) (y : β), l[g]? = some x → f x = some y →
+    (l.filterMap f)[((l.take g).filterMap f).length]? = some y ∧
+    ((l.take (g + 1)).filterMap f).length = ((l.take g).filterMap f).length + 1 := by
+  induction l with
+  | nil => intro g x y hx; simp at hx
+  | cons a t ih =>
+    intro g x y hx hy
+    cases g with
+    | zero =>
+      simp at hx; subst hx
+      simp [List.filterMap_cons, hy]
+    | succ g =>
+      simp only [List.getElem?_cons_succ] at hx
+      obtain ⟨i1, i2⟩ := ih g x y hx hy
+      cases hfa : f a with
+      | none => simp only [List.take_succ_cons, List.filterMap_cons, hfa]; exact ⟨i1, i2⟩
+      | some b =>
+        simp only [List.take_succ_cons, List.filterMap_cons, hfa, List.length_cons, List.getElem?_cons_succ]
+        exact ⟨i1, by omega⟩
+
+theorem filterMap_skip {α β : Type} (f : α → Option β) (l : List α) : ∀ (g : Nat) (x : α), l[g]? = some x → f x = none →
+    ((l.take (g + 1)).filterMap f).length = ((l.take g).filterMap f).length := by
+  induction l with
+  | nil => intro g x hx; simp at hx
+  | cons a t ih =>
+    intro g x hx hy
+    cases g with
+    | zero =>
+      simp at hx; subst hx
+      simp [List.filterMap_cons, hy]
+    | succ g =>
+      simp only [List.getElem?_cons_succ] at hx
+      have i2 := ih g x hx hy
+      cases hfa : f a with
+      | none => simp only [List.take_succ_cons, List.filterMap_cons, hfa]; exact i2
+      | some b => simp only [List.take_succ_cons, List.filterMap_cons, hfa, List.length_cons]; omega
+
+theorem consZip_get (m : Msa) (g : Nat) (hg : g < 5) :
+    ((consF m).zip consLT)[g]? = some ((consF m).getD g none, consLT.getD g 0) := by
+  rcases g with _ | _ | _ | _ | _ | _
+  · rfl
+  · rfl
+  · rfl
+  · rfl
+  · rfl
+  · omega
+
+/-- slot `g` holds a string: the next `#=GC` line of the block is that slot's -/
+theorem blockSpec_gc (m : Msa) (g : Nat) (hg : g < 5) (s : Bytes) (hs : (consF m).getD g none = some s) :
+    (blockSpec m)[m.nseq + cntSet m g]? = some (consLT.getD g 0, none) ∧ cntSet m (g + 1) = cntSet m g + 1 := by
+  have := filterMap_idx (fun p : Option Bytes × Nat => p.1.map (fun _ => p.2)) ((consF m).zip consLT) g _ (consLT.getD g 0)
+    (consZip_get m g hg) (by show Option.map _ ((consF m).getD g none) = _; rw [hs]; rfl)
+  refine ⟨?_, this.2⟩
+  unfold blockSpec
+  rw [List.getElem?_append_right (by simp [Msa.nseq])]
+  simp only [List.length_map, List.length_range, Msa.nseq, Nat.add_sub_cancel_left, List.getElem?_map]
+  have h1 := this.1
+  unfold cntSet gcLT
+  rw [h1]; rfl
+
+theorem cntSet_none (m : Msa) (g : Nat) (hg : g < 5) (hs : (consF m).getD g none = none) : cntSet m (g + 1) = cntSet m g :=
+  filterMap_skip (fun p : Option Bytes × Nat => p.1.map (fun _ => p.2)) ((consF m).zip consLT) g _ (consZip_get m g hg)
+    (by show Option.map _ ((consF m).getD g none) = _; rw [hs]; rfl)
+
+theorem sGC_eq : sGC = bGC ++ [32] := by decide +kernel
+
+theorem stoStep_gcline (cfg : Cfg) (st : StoSt) (rest : Bytes) (hl : st.lead = false) :
+    stoStep cfg st (bGC ++ [32] ++ rest) = liftE (parseGc st (bGC ++ [32] ++ rest)) := by
+  unfold stoStep
+  simp [hl, bGC, List.dropWhile, memstrpfx, bSlash, bGF, bGS, List.isPrefixOf]
+
+theorem consVal_getD (m : Msa) (p g : Nat) (s : Bytes) (hs : (consF m).getD g none = some s) :
+    (consVal m p g).getD [] = s.take p := by
+  unfold consVal
+  rw [hs]
+  by_cases hp : p = 0
+  · simp [hp]
+  · simp [hp]
+
+theorem consVal_some (m : Msa) (p g : Nat) (s : Bytes) (hs : (consF m).getD g none = some s) (hp : p ≠ 0) :
+    consVal m p g = some (s.take p) := by
+  unfold consVal; rw [hs]; simp [hp]
+
+theorem consVal_none (m : Msa) (p g : Nat) (hs : (consF m).getD g none = none) : consVal m p g = none := by
+  unfold consVal; rw [hs]
+
+/-- the tag of slot `g` is read as the line type of slot `g` -/
+theorem consTag_lt (g : Nat) (hg : g < 5) :
+    gcLineType (consTag.getD g []) = consLT.getD g 0 ∧ consIdx (consLT.getD g 0) = some g ∧ nameOk (consTag.getD g []) ∧
+    (10 : UInt8) ∉ consTag.getD g [] := by
+  rcases g with _ | _ | _ | _ | _ | _
+  · unfold nameOk; decide +kernel
+  · unfold nameOk; decide +kernel
+  · unfold nameOk; decide +kernel
+  · unfold nameOk; decide +kernel
+  · unfold nameOk; decide +kernel
+  · omega
+
+/-- first block: the `#=GC` line is recorded as line `k` -/
+theorem gcLocate_first (cfg : Cfg) (enc : UInt8 → UInt8) (txt : Nat → Bytes) (m : Msa) (w jn jq k g : Nat) (st : StoSt) (lt : Nat)
+    (hspec : (blockSpec m)[k]? = some (lt, none)) (h : InBlk cfg enc txt m 0 w jn k jq k g st) :
+    ∃ st1, gcLocate st lt = .ok st1 ∧ InBlk cfg enc txt m 0 w jn (k + 1) jq k g st1 := by
+  have hnb : st.nblock = 0 := h.nblock.mpr rfl
+  obtain ⟨st1, h1, hI1⟩ := recordLine_new cfg enc txt m 0 w jn jq k g st lt none hspec h
+  refine ⟨st1, ?_, hI1⟩
+  unfold gcLocate
+  simp [hnb, h1]
+
+/-- later blocks: the `#=GC` line must be the one recorded at this position -/
+theorem gcLocate_later (cfg : Cfg) (enc : UInt8 → UInt8) (txt : Nat → Bytes) (m : Msa) (pos w jn jq k g : Nat) (st : StoSt) (lt : Nat)
+    (hspec : (blockSpec m)[k]? = some (lt, none)) (h : InBlk cfg enc txt m pos w jn (blockSpec m).length jq k g st) (hpos : pos ≠ 0) :
+    gcLocate st lt = .ok st := by
+  have hnb : (st.nblock != 0) = true := by
+    have : st.nblock ≠ 0 := fun e => hpos (h.nblock.mp e)
+    simpa using this
+  have hk : k < (blockSpec m).length := lt_length_of_getElem? hspec
+  have hblt := h.blt k hk
+  rw [hspec] at hblt
+  simp only [Option.map_some] at hblt
+  have hge : ¬ (st.npb ≤ k) := by rw [h.npb hpos]; omega
+  unfold gcLocate expectLine
+  simp only [hnb, if_true, h.bi, hge, ge_iff_le, if_false, getE_of hblt]
+  simp
+
+/-- the rest of `stockholm_parse_gc` once the line is located: the piece is appended to slot `g` -/
+theorem parseGc_after (cfg : Cfg) (enc : UInt8 → UInt8) (txt : Nat → Bytes) (m : Msa) (pos w jn jb j k g : Nat) (st st1 : StoSt)
+    (p p1 tag c s : Bytes) (hm1 : memtok p blankTab = some (bGC, p1)) (hm2 : memtok p1 blankTab = some (tag, c)) (hc : ChunkOk c)
+    (hlt : consIdx (gcLineType tag) = some g) (hloc : gcLocate st (gcLineType tag) = .ok st1)
+    (h1 : InBlk cfg enc txt m pos w jn jb j k g st1) (hg : g < 5) (hs : (consF m).getD g none = some s)
+    (hsl : s.length = m.alen) (hs0 : ∀ t ∈ s, t ≠ 0) (hcj : c = (s.drop pos).take w) (hw : 1 ≤ w) (hpw : pos + w ≤ m.alen)
+    (hk : k ≠ 0) :
+    ∃ st3, parseGc st p = .ok st3 ∧ InBlk cfg enc txt m pos w jn jb j (k + 1) (g + 1) st3 := by
+  have hfr := h1.fr
+  have hcl : c.length = w := by rw [hcj, List.length_take, List.length_drop, hsl]; omega
+  have hcne : c.isEmpty = false := by
+    cases c with
+    | nil => exact absurd rfl hc.1
+    | cons _ _ => rfl
+  have hc0 : c.contains 0 = false := by
+    cases hh : c.contains 0 with
+    | false => rfl
+    | true => exact absurd rfl (hc.2 0 (by simpa using hh)).2
+  have hlen : st1.consLen[g]? = some pos := by
+    have := hfr.consLen g hg (by rw [hs]; rfl)
+    rw [if_neg (Nat.lt_irrefl g)] at this; exact this
+  have hcons : st1.cons[g]? = some (consVal m pos g) := by
+    have := hfr.cons g hg
+    rw [if_neg (Nat.lt_irrefl g)] at this; exact this
+  have hcat : strcatE (consVal m pos g) pos c = .ok (consVal m (pos + w) g) := by
+    unfold strcatE
+    have hl : ((consVal m pos g).getD []).length = pos := by
+      rw [consVal_getD m pos g s hs, List.length_take, hsl]; omega
+    rw [consVal_some m (pos + w) g s hs (by omega)]
+    simp only [hcne, Bool.false_eq_true, if_false, hl, bne_self_eq_false]
+    rw [consVal_getD m pos g s hs, hcj, ← List.take_add]
+    rw [cstr_id _ (fun x hx => hs0 x (List.mem_of_mem_take hx))]
+  have hwid : (st1.bi != 0 && c.length != st1.alenB) = false := by
+    rw [h1.alenB hk, hcl]; simp
+  have hl1 : g < st1.cons.length := by have := hfr.cons_len; simp only [annOf] at this; omega
+  have hl2 : g < st1.consLen.length := by have := hfr.consLen_len; simp only [annOf] at this; omega
+  unfold parseGc
+  simp only [hm1, hm2, rtrim_chunk c hc, hcne, hc0, hloc, hlt, getE_of hlen, h1.alen, bne_self_eq_false, getE_of hcons, hcat,
+    show memstrcmp bGC bGC = true from by decide, Bool.not_true, Bool.false_eq_true, if_false, blockLineDone, hwid]
+  refine ⟨_, rfl, ?_⟩
+  exact
+    { fr :=
+        { lead := hfr.lead, hasw := hfr.hasw, name := hfr.name, desc := hfr.desc, acc := hfr.acc, au := hfr.au,
+          cons_len := by show (st1.cons.set g _).length = 5; rw [List.length_set]; exact hfr.cons_len
+          consLen_len := by show (st1.consLen.set g _).length = 5; rw [List.length_set]; exact hfr.consLen_len
+          cons := fun i hi => by
+            show (st1.cons.set g _)[i]? = _
+            rw [List.getElem?_set]
+            by_cases e : g = i
+            · subst e; simp [hl1]
+            · have := hfr.cons i hi
+              simp only [e, if_false]
+              have e1 : i < g + 1 ↔ i < g := by omega
+              simp only [e1]; exact this
+          consLen := fun i hi hsi => by
+            show (st1.consLen.set g _)[i]? = _
+            rw [List.getElem?_set]
+            by_cases e : g = i
+            · subst e; simp [hl2, hcl]
+            · have := hfr.consLen i hi hsi
+              simp only [e, if_false]
+              have e1 : i < g + 1 ↔ i < g := by omega
+              simp only [e1]; exact this
+          sqacc := hfr.sqacc, sqdesc := hfr.sqdesc, per := hfr.per
+          cutset := hfr.cutset, comments := hfr.comments, gf := hfr.gf, gsTags := hfr.gsTags, gs := hfr.gs
+          gcTags := hfr.gcTags, gc := hfr.gc, grTags := hfr.grTags, gr := hfr.gr }
+      alen := by first | rfl | exact h1.alen
+      nblock := h1.nblock, names := h1.names, nseq := h1.nseq, alloc := h1.alloc, apos := h1.apos
+      rows_len := h1.rows_len, rows_done := h1.rows_done, rows_todo := h1.rows_todo, salloc := h1.salloc
+      sqlen_len := h1.sqlen_len, sqlen_done := h1.sqlen_done, sqlen_todo := h1.sqlen_todo
+      bpos := h1.bpos, blt_len := h1.blt_len, bidx_len := h1.bidx_len, nrec := h1.nrec, blt := h1.blt, bidx := h1.bidx
+      npb := h1.npb
+      bi := by show st1.bi + 1 = k + 1; rw [h1.bi]
+      si := h1.si, nseqB := h1.nseqB
+      alenB := fun _ => hcl
+      inBlock := by show true = decide (k + 1 ≠ 0); simp }
+
 theorem stoStep_blank (cfg : Cfg) (st st' : StoSt) (hl : st.lead = false) (he : endBlock st = .ok st') :
     stoStep cfg st [] = .inl st' := by
   unfold stoStep
@@ -661,31 +1022,179 @@ theorem stoStep_slash (cfg : Cfg) (st st' : StoSt) (hl : st.lead = false) (he : 
   unfold stoStep
   simp [hl, he, memstrpfx, bSlash]
 
-/-- a whole later block: the blank line, then the sequence lines -/
+/-- the shape of a written `#=GC` line -/
+theorem gcline_shape (m : Msa) (hp : StoAnn m) (pos w g : Nat) (hg : g < 5) (s : Bytes) (hs : (consF m).getD g none = some s)
+    (hw : 1 ≤ w) (hpw : pos + w ≤ m.alen) :
+    ∃ sp c, gcLine (stoLayout m) (consTag.getD g []) s pos w = bGC ++ [32] ++ (consTag.getD g [] ++ sp ++ c) ∧ SpOk sp ∧ ChunkOk c ∧
+      c = (s.drop pos).take w := by
+  obtain ⟨hsl, hsc⟩ := hp.cons_ok g s hs
+  refine ⟨List.replicate ((((stoLayout m).margin : Int) - 6).natAbs - (consTag.getD g []).length) 32 ++ [32], (s.drop pos).take w,
+    ?_, ⟨by simp, ?_⟩, ⟨?_, ?_⟩, rfl⟩
+  · unfold gcLine strChunk padRight
+    rw [sGC_eq, cstr_id _ (fun c hc => (hsc c (List.mem_of_mem_drop (List.mem_of_mem_take hc))).2)]
+    simp
+  · intro c hc
+    rcases List.mem_append.mp hc with hc | hc
+    · exact (List.mem_replicate.mp hc).2
+    · simpa using hc
+  · intro h0
+    have : ((s.drop pos).take w).length = 0 := by rw [h0]; rfl
+    rw [List.length_take, List.length_drop, hsl] at this
+    omega
+  · intro t ht
+    exact hsc t (List.mem_of_mem_drop (List.mem_of_mem_take ht))
+
+theorem Frozen_skip (m : Msa) (pos w g : Nat) (a : Ann) (hs : (consF m).getD g none = none) (h : Frozen m pos w g a) :
+    Frozen m pos w (g + 1) a :=
+  { lead := h.lead, hasw := h.hasw, name := h.name, desc := h.desc, acc := h.acc, au := h.au,
+    cons_len := h.cons_len, consLen_len := h.consLen_len
+    cons := fun i hi => by
+      by_cases e : i = g
+      · subst e
+        have := h.cons i hi
+        rw [consVal_none m _ i hs] at this ⊢; exact this
+      · have e1 : i < g + 1 ↔ i < g := by omega
+        simp only [e1]; exact h.cons i hi
+    consLen := fun i hi hsi => by
+      by_cases e : i = g
+      · subst e; rw [hs] at hsi; cases hsi
+      · have e1 : i < g + 1 ↔ i < g := by omega
+        simp only [e1]; exact h.consLen i hi hsi
+    sqacc := h.sqacc, sqdesc := h.sqdesc, per := h.per, cutset := h.cutset, comments := h.comments, gf := h.gf
+    gsTags := h.gsTags, gs := h.gs, gcTags := h.gcTags, gc := h.gc, grTags := h.grTags, gr := h.gr }
+
+theorem InBlk_skip (cfg : Cfg) (enc : UInt8 → UInt8) (txt : Nat → Bytes) (m : Msa) (pos w jn jb j k g : Nat) (st : StoSt)
+    (hs : (consF m).getD g none = none) (h : InBlk cfg enc txt m pos w jn jb j k g st) :
+    InBlk cfg enc txt m pos w jn jb j k (g + 1) st :=
+  { fr := Frozen_skip m pos w g _ hs h.fr
+    alen := h.alen, nblock := h.nblock, names := h.names, nseq := h.nseq, alloc := h.alloc, apos := h.apos
+    rows_len := h.rows_len, rows_done := h.rows_done, rows_todo := h.rows_todo, salloc := h.salloc
+    sqlen_len := h.sqlen_len, sqlen_done := h.sqlen_done, sqlen_todo := h.sqlen_todo
+    bpos := h.bpos, blt_len := h.blt_len, bidx_len := h.bidx_len, nrec := h.nrec, blt := h.blt, bidx := h.bidx
+    npb := h.npb, bi := h.bi, si := h.si, nseqB := h.nseqB, alenB := h.alenB, inBlock := h.inBlock }
+
+/-- slot `g` of the `#=GC` lines, first block -/
+theorem gcSlot_first (abc : Option Abc) (cfg : Cfg) (enc : UInt8 → UInt8) (txt : Nat → Bytes) (m : Msa)
+    (W : StoWritable abc cfg enc txt m) (w g : Nat) (st : StoSt) (hg : g < 5)
+    (h : InBlk cfg enc txt m 0 w m.nseq (m.nseq + cntSet m g) m.nseq (m.nseq + cntSet m g) g st) (hw : 1 ≤ w) (hpw : w ≤ m.alen) :
+    ∃ st', stepsFrom (stoStep cfg) st (gcSlotLines m 0 w g) = .inl st' ∧
+      InBlk cfg enc txt m 0 w m.nseq (m.nseq + cntSet m (g + 1)) m.nseq (m.nseq + cntSet m (g + 1)) (g + 1) st' := by
+  cases hs : (consF m).getD g none with
+  | none =>
+    refine ⟨st, by unfold gcSlotLines; rw [hs]; rfl, ?_⟩
+    rw [cntSet_none m g hg hs]
+    exact InBlk_skip cfg enc txt m 0 w _ _ _ _ g st hs h
+  | some s =>
+    obtain ⟨hspec, hcnt⟩ := blockSpec_gc m g hg s hs
+    obtain ⟨hlt1, hlt2, htag, _⟩ := consTag_lt g hg
+    obtain ⟨sp, c, hline, hsp, hc, hcj⟩ := gcline_shape m W.ann 0 w g hg s hs hw (by omega)
+    obtain ⟨st1, hloc, h1⟩ := gcLocate_first cfg enc txt m w _ _ _ g st _ hspec h
+    have hn1 := W.n1
+    obtain ⟨st3, hp, h3⟩ := parseGc_after cfg enc txt m 0 w _ _ _ _ g st st1 (bGC ++ [32] ++ (consTag.getD g [] ++ sp ++ c)) _ _ c s
+      (memtok_tok bGC [32] _ (by unfold nameOk; decide +kernel) ⟨by simp, by simp⟩ (by
+        intro x hx
+        obtain ⟨hne, hnd⟩ := htag
+        cases ht : consTag.getD g [] with
+        | nil => exact absurd ht hne
+        | cons a t => rw [ht] at hx; simp at hx; subst hx; exact hnd a (by rw [ht]; simp)))
+      (memtok_sqline _ sp c htag hsp hc) hc (by rw [hlt1]; exact hlt2) (by rw [hlt1]; exact hloc) h1 hg hs
+      (W.ann.cons_ok g s hs).1 (fun t ht => ((W.ann.cons_ok g s hs).2 t ht).2) hcj hw (by omega) (by omega)
+    refine ⟨st3, ?_, by rw [hcnt]; exact h3⟩
+    simp only [gcSlotLines, hs, optLine, stepsFrom]
+    rw [hline, stoStep_gcline cfg st _ h.fr.lead, hp]; rfl
+
+/-- slot `g` of the `#=GC` lines, later blocks -/
+theorem gcSlot_later (abc : Option Abc) (cfg : Cfg) (enc : UInt8 → UInt8) (txt : Nat → Bytes) (m : Msa)
+    (W : StoWritable abc cfg enc txt m) (pos w g : Nat) (st : StoSt) (hg : g < 5) (hpos : pos ≠ 0)
+    (h : InBlk cfg enc txt m pos w m.nseq (blockSpec m).length m.nseq (m.nseq + cntSet m g) g st) (hw : 1 ≤ w) (hpw : pos + w ≤ m.alen) :
+    ∃ st', stepsFrom (stoStep cfg) st (gcSlotLines m pos w g) = .inl st' ∧
+      InBlk cfg enc txt m pos w m.nseq (blockSpec m).length m.nseq (m.nseq + cntSet m (g + 1)) (g + 1) st' := by
+  cases hs : (consF m).getD g none with
+  | none =>
+    refine ⟨st, by unfold gcSlotLines; rw [hs]; rfl, ?_⟩
+    rw [cntSet_none m g hg hs]
+    exact InBlk_skip cfg enc txt m pos w _ _ _ _ g st hs h
+  | some s =>
+    obtain ⟨hspec, hcnt⟩ := blockSpec_gc m g hg s hs
+    obtain ⟨hlt1, hlt2, htag, _⟩ := consTag_lt g hg
+    obtain ⟨sp, c, hline, hsp, hc, hcj⟩ := gcline_shape m W.ann pos w g hg s hs hw hpw
+    have hloc := gcLocate_later cfg enc txt m pos w _ _ _ g st _ hspec h hpos
+    have hn1 := W.n1
+    obtain ⟨st3, hp, h3⟩ := parseGc_after cfg enc txt m pos w _ _ _ _ g st st (bGC ++ [32] ++ (consTag.getD g [] ++ sp ++ c)) _ _ c s
+      (memtok_tok bGC [32] _ (by unfold nameOk; decide +kernel) ⟨by simp, by simp⟩ (by
+        intro x hx
+        obtain ⟨hne, hnd⟩ := htag
+        cases ht : consTag.getD g [] with
+        | nil => exact absurd ht hne
+        | cons a t => rw [ht] at hx; simp at hx; subst hx; exact hnd a (by rw [ht]; simp)))
+      (memtok_sqline _ sp c htag hsp hc) hc (by rw [hlt1]; exact hlt2) (by rw [hlt1]; exact hloc) h hg hs
+      (W.ann.cons_ok g s hs).1 (fun t ht => ((W.ann.cons_ok g s hs).2 t ht).2) hcj hw hpw (by omega)
+    refine ⟨st3, ?_, by rw [hcnt]; exact h3⟩
+    simp only [gcSlotLines, hs, optLine, stepsFrom]
+    rw [hline, stoStep_gcline cfg st _ h.fr.lead, hp]; rfl
+
+theorem cntSet_zero (m : Msa) : cntSet m 0 = 0 := rfl
+
+/-- the whole first block -/
+theorem block_first (abc : Option Abc) (cfg : Cfg) (enc : UInt8 → UInt8) (txt : Nat → Bytes) (m : Msa)
+    (W : StoWritable abc cfg enc txt m) (cpl : Nat) (st : StoSt) (h : InBlk cfg enc txt m 0 (stoW m cpl 0) 0 0 0 0 0 st)
+    (hc : 0 < cpl) :
+    ∃ st', stepsFrom (stoStep cfg) st (stoAnnBlock abc m cpl 0) = .inl st' ∧
+      InBlk cfg enc txt m 0 (stoW m cpl 0) m.nseq (blockSpec m).length m.nseq (blockSpec m).length 5 st' := by
+  have ha1 := W.alen1
+  have hw1 : 1 ≤ stoW m cpl 0 := by unfold stoW; split <;> omega
+  have hw2 : stoW m cpl 0 ≤ m.alen := by unfold stoW; split <;> omega
+  obtain ⟨s0, e0, h0⟩ := sqlines_first abc cfg enc txt m W _ st h hw1 hw2 m.nseq (Nat.le_refl _)
+  have h0' : InBlk cfg enc txt m 0 (stoW m cpl 0) m.nseq (m.nseq + cntSet m 0) m.nseq (m.nseq + cntSet m 0) 0 s0 := h0
+  obtain ⟨s1, e1, h1⟩ := gcSlot_first abc cfg enc txt m W _ 0 s0 (by omega) h0' hw1 hw2
+  obtain ⟨s2, e2, h2⟩ := gcSlot_first abc cfg enc txt m W _ 1 s1 (by omega) h1 hw1 hw2
+  obtain ⟨s3, e3, h3⟩ := gcSlot_first abc cfg enc txt m W _ 2 s2 (by omega) h2 hw1 hw2
+  obtain ⟨s4, e4, h4⟩ := gcSlot_first abc cfg enc txt m W _ 3 s3 (by omega) h3 hw1 hw2
+  obtain ⟨s5, e5, h5⟩ := gcSlot_first abc cfg enc txt m W _ 4 s4 (by omega) h4 hw1 hw2
+  rw [← blockSpec_len] at h5
+  refine ⟨s5, ?_, h5⟩
+  unfold stoAnnBlock
+  simp only [Nat.lt_irrefl, gt_iff_lt, if_false, List.nil_append]
+  rw [stepsFrom_append _ _ _ _ _ e0, stepsFrom_append _ _ _ _ _ e1, stepsFrom_append _ _ _ _ _ e2,
+    stepsFrom_append _ _ _ _ _ e3, stepsFrom_append _ _ _ _ _ e4]
+  exact e5
+
+/-- a whole later block: the blank line, the sequence lines, the `#=GC` lines -/
 theorem block_later (abc : Option Abc) (cfg : Cfg) (enc : UInt8 → UInt8) (txt : Nat → Bytes) (m : Msa)
-    (W : StoWritable abc cfg enc txt m) (cpl p w pos : Nat) (st : StoSt) (h : InBlk cfg enc txt m p w m.nseq m.nseq m.nseq st)
+    (W : StoWritable abc cfg enc txt m) (cpl p w pos : Nat) (st : StoSt)
+    (h : InBlk cfg enc txt m p w m.nseq (blockSpec m).length m.nseq (blockSpec m).length 5 st)
     (hpw : p + w = pos) (hw : 1 ≤ w) (hlt : pos < m.alen) (hc : 0 < cpl) :
-    ∃ st', stepsFrom (stoStep cfg) st (stoPlainBlock abc m cpl pos) = .inl st' ∧
-      InBlk cfg enc txt m pos (stoW m cpl pos) m.nseq m.nseq m.nseq st' := by
+    ∃ st', stepsFrom (stoStep cfg) st (stoAnnBlock abc m cpl pos) = .inl st' ∧
+      InBlk cfg enc txt m pos (stoW m cpl pos) m.nseq (blockSpec m).length m.nseq (blockSpec m).length 5 st' := by
   have hpos : pos ≠ 0 := by omega
   have hw1 : 1 ≤ stoW m cpl pos := by unfold stoW; split <;> omega
   have hw2 : pos + stoW m cpl pos ≤ m.alen := by unfold stoW; split <;> omega
   obtain ⟨st1, he, h1⟩ := endBlock_full cfg enc txt m p w (stoW m cpl pos) m.nseq st h rfl W.n1 hw
   rw [hpw] at h1
-  obtain ⟨st2, hs2, h2⟩ := sqlines_later abc cfg enc txt m W pos _ st1 h1 hpos hw1 hw2 m.nseq (Nat.le_refl _)
-  refine ⟨st2, ?_, h2⟩
-  unfold stoPlainBlock
+  obtain ⟨s0, e0, h0⟩ := sqlines_later abc cfg enc txt m W pos _ st1 h1 hpos hw1 hw2 m.nseq (Nat.le_refl _)
+  have h0' : InBlk cfg enc txt m pos (stoW m cpl pos) m.nseq (blockSpec m).length m.nseq (m.nseq + cntSet m 0) 0 s0 := h0
+  obtain ⟨s1, e1, h1'⟩ := gcSlot_later abc cfg enc txt m W pos _ 0 s0 (by omega) hpos h0' hw1 hw2
+  obtain ⟨s2, e2, h2⟩ := gcSlot_later abc cfg enc txt m W pos _ 1 s1 (by omega) hpos h1' hw1 hw2
+  obtain ⟨s3, e3, h3⟩ := gcSlot_later abc cfg enc txt m W pos _ 2 s2 (by omega) hpos h2 hw1 hw2
+  obtain ⟨s4, e4, h4⟩ := gcSlot_later abc cfg enc txt m W pos _ 3 s3 (by omega) hpos h3 hw1 hw2
+  obtain ⟨s5, e5, h5⟩ := gcSlot_later abc cfg enc txt m W pos _ 4 s4 (by omega) hpos h4 hw1 hw2
+  rw [← blockSpec_len] at h5
+  refine ⟨s5, ?_, h5⟩
+  unfold stoAnnBlock
   have : pos > 0 := by omega
   simp only [this, if_true, List.singleton_append, stepsFrom, stoStep_blank cfg st st1 h.fr.lead he]
-  exact hs2
+  rw [stepsFrom_append _ _ _ _ _ e0, stepsFrom_append _ _ _ _ _ e1, stepsFrom_append _ _ _ _ _ e2,
+    stepsFrom_append _ _ _ _ _ e3, stepsFrom_append _ _ _ _ _ e4]
+  exact e5
 
 /-- all the later blocks -/
 theorem blocks_later (abc : Option Abc) (cfg : Cfg) (enc : UInt8 → UInt8) (txt : Nat → Bytes) (m : Msa)
     (W : StoWritable abc cfg enc txt m) (cpl : Nat) (hc : 0 < cpl) :
-    ∀ k pos, m.alen - pos ≤ k → ∀ (st : StoSt) (p w : Nat), InBlk cfg enc txt m p w m.nseq m.nseq m.nseq st →
+    ∀ k pos, m.alen - pos ≤ k → ∀ (st : StoSt) (p w : Nat),
+      InBlk cfg enc txt m p w m.nseq (blockSpec m).length m.nseq (blockSpec m).length 5 st →
       p + w = min pos m.alen → 1 ≤ w →
-      ∃ st' p' w', stepsFrom (stoStep cfg) st ((blockStartsFrom m.alen cpl pos).flatMap (stoPlainBlock abc m cpl)) = .inl st' ∧
-        InBlk cfg enc txt m p' w' m.nseq m.nseq m.nseq st' ∧ p' + w' = m.alen ∧ 1 ≤ w' := by
+      ∃ st' p' w', stepsFrom (stoStep cfg) st ((blockStartsFrom m.alen cpl pos).flatMap (stoAnnBlock abc m cpl)) = .inl st' ∧
+        InBlk cfg enc txt m p' w' m.nseq (blockSpec m).length m.nseq (blockSpec m).length 5 st' ∧ p' + w' = m.alen ∧ 1 ≤ w' := by
   intro k
   induction k with
   | zero =>
@@ -707,30 +1216,183 @@ theorem blocks_later (abc : Option Abc) (cfg : Cfg) (enc : UInt8 → UInt8) (txt
       rw [blockStartsFrom, dif_neg hge]
       exact ⟨st, p, w, rfl, h, by omega, hw⟩
 
+/-- the reader's state behind the header section -/
+def headSt (m : Msa) : StoSt := { lead := false, name := m.name, desc := m.desc, acc := m.acc, au := m.au }
+
+/-! ## the header section -/
+
+theorem sGF_eq : sGF = bGF ++ [32] := by decide +kernel
+
+theorem stoStep_gfline (cfg : Cfg) (st : StoSt) (rest : Bytes) (hl : st.lead = false) :
+    stoStep cfg st (bGF ++ [32] ++ rest) = liftE (parseGf st (bGF ++ [32] ++ rest)) := by
+  unfold stoStep
+  simp [hl, bGF, List.dropWhile, memstrpfx, bSlash, List.isPrefixOf]
+
+theorem gfline_shape (L : StoLayout) (tag val : Bytes) :
+    ∃ sp, gfLine L tag val = bGF ++ [32] ++ (tag ++ sp ++ val) ∧ SpOk sp := by
+  refine ⟨List.replicate ((L.maxgf : Int).natAbs - tag.length) 32 ++ [32], ?_, by simp, ?_⟩
+  · unfold gfLine padRight; rw [sGF_eq]; simp
+  · intro c hc
+    rcases List.mem_append.mp hc with hc | hc
+    · exact (List.mem_replicate.mp hc).2
+    · simpa using hc
+
+theorem nameOk_head (v : Bytes) (h : nameOk v) : ∀ c, v.head? = some c → inDelim blankTab c = false := by
+  intro c hc
+  cases v with
+  | nil => cases hc
+  | cons a t => simp at hc; subst hc; exact h.2 a (by simp)
+
+theorem nameOk_nonul (v : Bytes) (h : nameOk v) : ∀ c ∈ v, c ≠ 0 := by
+  intro c hc e
+  have := h.2 c hc
+  subst e
+  simp [inDelim] at this
+
+theorem gf_memtok (tag sp val : Bytes) (ht : nameOk tag) (hs : SpOk sp) (hv : ∀ c, val.head? = some c → inDelim blankTab c = false) :
+    memtok (bGF ++ [32] ++ (tag ++ sp ++ val)) blankTab = some (bGF, tag ++ sp ++ val) ∧
+    memtok (tag ++ sp ++ val) blankTab = some (tag, val) := by
+  refine ⟨memtok_tok bGF [32] _ (by unfold nameOk; decide +kernel) ⟨by simp, by simp⟩ ?_, memtok_tok tag sp val ht hs hv⟩
+  intro x hx
+  cases tag with
+  | nil => exact absurd rfl ht.1
+  | cons a t => simp at hx; subst hx; exact ht.2 a (by simp)
+
+theorem parseGf_id (st : StoSt) (sp val : Bytes) (hs : SpOk sp) (hv : gfTokOk val) :
+    parseGf st (bGF ++ [32] ++ (bID ++ sp ++ val)) = .ok { st with name := some val } := by
+  obtain ⟨hm1, hm2⟩ := gf_memtok bID sp val (by unfold nameOk; decide +kernel) hs (nameOk_head val hv.1)
+  have hm3 := memtok_name val hv.1
+  have hcs := cstr_id val (nameOk_nonul val hv.1)
+  unfold parseGf
+  simp only [hm1, hm2, hm3, hcs]
+  simp [memstrcmp, bGF, bID]
+
+theorem parseGf_ac (st : StoSt) (sp val : Bytes) (hs : SpOk sp) (hv : gfTokOk val) :
+    parseGf st (bGF ++ [32] ++ (bAC ++ sp ++ val)) = .ok { st with acc := some val } := by
+  obtain ⟨hm1, hm2⟩ := gf_memtok bAC sp val (by unfold nameOk; decide +kernel) hs (nameOk_head val hv.1)
+  have hm3 := memtok_name val hv.1
+  have hcs := cstr_id val (nameOk_nonul val hv.1)
+  unfold parseGf
+  simp only [hm1, hm2, hm3, hcs]
+  simp [memstrcmp, bGF, bID, bAC]
+
+theorem parseGf_de (st : StoSt) (sp val : Bytes) (hs : SpOk sp) (hv : gfTextOk val) :
+    parseGf st (bGF ++ [32] ++ (bDE ++ sp ++ val)) = .ok { st with desc := some val } := by
+  obtain ⟨hm1, hm2⟩ := gf_memtok bDE sp val (by unfold nameOk; decide +kernel) hs hv.1
+  have hcs := cstr_id val (fun c hc e => hv.2.1 (e ▸ hc))
+  unfold parseGf
+  simp only [hm1, hm2, hcs]
+  simp [memstrcmp, bGF, bID, bAC, bDE]
+
+theorem parseGf_au (st : StoSt) (sp val : Bytes) (hs : SpOk sp) (hv : gfTextOk val) :
+    parseGf st (bGF ++ [32] ++ (bAU ++ sp ++ val)) = .ok { st with au := some val } := by
+  obtain ⟨hm1, hm2⟩ := gf_memtok bAU sp val (by unfold nameOk; decide +kernel) hs hv.1
+  have hcs := cstr_id val (fun c hc e => hv.2.1 (e ▸ hc))
+  unfold parseGf
+  simp only [hm1, hm2, hcs]
+  simp [memstrcmp, bGF, bID, bAC, bDE, bAU]
+
+/-- the header section leaves the reader with the four `#=GF` fields set -/
+theorem head_steps (cfg : Cfg) (m : Msa) (hp : StoAnn m) :
+    stepsFrom (stoStep cfg) {} (stoAnnHead m) = .inl (headSt m) := by
+  have h0 : stoStep cfg {} bSto10 = .inl { lead := false } := rfl
+  have a1 : ∀ rest, stepsFrom (stoStep cfg) { lead := false } (optLine m.name (gfLine (stoLayout m) bID) ++ rest)
+      = stepsFrom (stoStep cfg) { lead := false, name := m.name } rest := by
+    intro rest
+    have hv := hp.name_ok
+    cases hn : m.name with
+    | none => rfl
+    | some v =>
+      obtain ⟨sp, hl, hs⟩ := gfline_shape (stoLayout m) bID v
+      simp only [optLine, List.cons_append, List.nil_append, stepsFrom]
+      rw [hl, stoStep_gfline cfg _ _ rfl, parseGf_id _ sp v hs (hv v hn)]
+      rfl
+  have a2 : ∀ rest, stepsFrom (stoStep cfg) { lead := false, name := m.name } (optLine m.acc (gfLine (stoLayout m) bAC) ++ rest)
+      = stepsFrom (stoStep cfg) { lead := false, name := m.name, acc := m.acc } rest := by
+    intro rest
+    have hv := hp.acc_ok
+    cases hn : m.acc with
+    | none => rfl
+    | some v =>
+      obtain ⟨sp, hl, hs⟩ := gfline_shape (stoLayout m) bAC v
+      simp only [optLine, List.cons_append, List.nil_append, stepsFrom]
+      rw [hl, stoStep_gfline cfg _ _ rfl, parseGf_ac _ sp v hs (hv v hn)]
+      rfl
+  have a3 : ∀ rest, stepsFrom (stoStep cfg) { lead := false, name := m.name, acc := m.acc }
+        (optLine m.desc (gfLine (stoLayout m) bDE) ++ rest)
+      = stepsFrom (stoStep cfg) { lead := false, name := m.name, acc := m.acc, desc := m.desc } rest := by
+    intro rest
+    have hv := hp.desc_ok
+    cases hn : m.desc with
+    | none => rfl
+    | some v =>
+      obtain ⟨sp, hl, hs⟩ := gfline_shape (stoLayout m) bDE v
+      simp only [optLine, List.cons_append, List.nil_append, stepsFrom]
+      rw [hl, stoStep_gfline cfg _ _ rfl, parseGf_de _ sp v hs (hv v hn)]
+      rfl
+  have a4 : ∀ rest, stepsFrom (stoStep cfg) { lead := false, name := m.name, acc := m.acc, desc := m.desc }
+        (optLine m.au (gfLine (stoLayout m) bAU) ++ rest)
+      = stepsFrom (stoStep cfg) (headSt m) rest := by
+    intro rest
+    have hv := hp.au_ok
+    unfold headSt
+    cases hn : m.au with
+    | none => rfl
+    | some v =>
+      obtain ⟨sp, hl, hs⟩ := gfline_shape (stoLayout m) bAU v
+      simp only [optLine, List.cons_append, List.nil_append, stepsFrom]
+      rw [hl, stoStep_gfline cfg _ _ rfl, parseGf_au _ sp v hs (hv v hn)]
+      rfl
+  unfold stoAnnHead
+  simp only [List.cons_append, List.nil_append, stepsFrom, h0]
+  rw [a1, a2, a3, a4]
+  simp only [stepsFrom, stoStep_blank cfg (headSt m) (headSt m) rfl rfl]
+
 theorem blockStarts_cons' (alen cpl : Nat) (h : 1 ≤ alen) (hc : 0 < cpl) :
     blockStarts alen cpl = 0 :: blockStartsFrom alen cpl cpl := by
   unfold blockStarts
   rw [blockStartsFrom, dif_pos ⟨by omega, hc⟩, Nat.zero_add]
 
-theorem InBlk_init (cfg : Cfg) (enc : UInt8 → UInt8) (txt : Nat → Bytes) (m : Msa) (w : Nat) :
-    InBlk cfg enc txt m 0 w 0 0 0 { lead := false } :=
-  { fr := ⟨rfl, rfl, rfl, rfl, rfl, rfl, rfl, rfl, rfl, rfl, rfl, rfl, rfl, rfl, rfl, rfl, rfl, rfl, rfl⟩
-    alen := rfl, nblock := ⟨fun _ => rfl, fun _ => rfl⟩, names := by simp, nseq := rfl, alloc := by decide, apos := by decide
-    rows_len := by decide
+theorem InBlk_init (cfg : Cfg) (enc : UInt8 → UInt8) (txt : Nat → Bytes) (m : Msa) (hp : StoAnn m) (w : Nat) :
+    InBlk cfg enc txt m 0 w 0 0 0 0 0 (headSt m) :=
+  { fr :=
+      { lead := rfl, hasw := rfl, name := rfl, desc := rfl, acc := rfl, au := rfl, cons_len := rfl, consLen_len := rfl
+        cons := fun k hk => by
+          have e : consVal m (if k < 0 then 0 + w else 0) k = none := by
+            rw [if_neg (Nat.not_lt_zero k)]; unfold consVal; split <;> simp
+          rw [e]
+          show (List.replicate 5 none)[k]? = _
+          rw [List.getElem?_replicate, if_pos hk]
+        consLen := fun k hk _ => by
+          rw [if_neg (Nat.not_lt_zero k)]
+          show (List.replicate 5 0)[k]? = _
+          rw [List.getElem?_replicate, if_pos hk]
+        sqacc := rfl, sqdesc := rfl, per := rfl, cutset := rfl
+        comments := by rw [hp.comments]; rfl
+        gf := by rw [hp.gf]; rfl
+        gsTags := rfl, gs := rfl, gcTags := rfl, gc := rfl, grTags := rfl, gr := rfl }
+    alen := rfl, nblock := ⟨fun _ => rfl, fun _ => rfl⟩, names := by simp [headSt], nseq := rfl
+    alloc := by show 0 ≤ 16; omega
+    apos := by show 0 < 16; omega
+    rows_len := by show (List.replicate 16 (none : Option Bytes)).length = 16; simp
     rows_done := fun i hi => by omega
     rows_todo := fun i _ hi2 => by
       have hi2' : i < 16 := hi2
       show (List.replicate 16 none)[i]? = _
       rw [List.getElem?_replicate, if_pos hi2']
       simp [phyRowAt]
-    salloc := rfl, sqlen_len := by decide
+    salloc := rfl
+    sqlen_len := by show (List.replicate 16 0).length = 16; simp
     sqlen_done := fun i hi => by omega
     sqlen_todo := fun i _ hi2 => by
       have hi2' : i < 16 := hi2
       show (List.replicate 16 0)[i]? = _
       rw [List.getElem?_replicate, if_pos hi2']
       simp
-    bpos := by decide, blt_len := by decide, bidx_len := by decide, nrec := by decide
+    bpos := by show 0 < 16; omega
+    blt_len := by show (List.replicate 16 (none : Option Nat)).length = 16; simp
+    bidx_len := by show (List.replicate 16 (none : Option (Option Nat))).length = 16; simp
+    nrec := by show 0 ≤ 16; omega
     blt := fun i hi => by omega
     bidx := fun i hi => by omega
     npb := fun e => absurd rfl e
@@ -755,11 +1417,22 @@ theorem rows_take_final (rows : List (Option Bytes)) (n : Nat) (f : Nat → Byte
   · simp [List.getElem?_take, hi, h i hi]
   · simp [List.getElem?_take, hi]
 
+theorem consVal_full (m : Msa) (hp : StoAnn m) (ha : 1 ≤ m.alen) (k : Nat) : consVal m m.alen k = (consF m).getD k none := by
+  unfold consVal
+  cases hs : (consF m).getD k none with
+  | none => rfl
+  | some s =>
+    have := (hp.cons_ok k s hs).1
+    have h0 : ¬ (m.alen = 0) := by omega
+    simp only [h0, if_false]
+    rw [← this, List.take_length]
+
 theorem stoFinal_full (abc : Option Abc) (cfg : Cfg) (enc : UInt8 → UInt8) (txt : Nat → Bytes) (m : Msa)
-    (W : StoWritable abc cfg enc txt m) (w : Nat) (st : StoSt) (h : InBlk cfg enc txt m m.alen w m.nseq m.nseq 0 st) :
+    (W : StoWritable abc cfg enc txt m) (w : Nat) (st : StoSt)
+    (h : InBlk cfg enc txt m m.alen w m.nseq (blockSpec m).length 0 0 0 st) :
     stoFinal cfg st = .ok (stoProject cfg m) := by
   have hfr := h.fr
-  have hp := W.plain
+  have hp := W.ann
   have ha1 := W.alen1
   have hn1 := W.n1
   have hnames : st.names = m.names := by rw [h.names]; exact List.take_length
@@ -784,36 +1457,61 @@ theorem stoFinal_full (abc : Option Abc) (cfg : Cfg) (enc : UInt8 → UInt8) (tx
     have := h.rows_todo i (Nat.zero_le _) (hsq i hi)
     rw [if_pos hi, phyRowAt_full _ _ _ _ _ (by omega) (by rw [W.txt_len i hi]; exact Nat.le_refl _)] at this
     rw [this, W.row_enc i hi]
+  have hcons : ∀ k, k < 5 → st.cons.getD k none = (consF m).getD k none := by
+    intro k hk
+    have := hfr.cons k hk
+    rw [if_neg (Nat.not_lt_zero k), consVal_full m hp ha1 k] at this
+    rw [List.getD_eq_getElem?_getD]
+    show ((annOf st).cons[k]?).getD none = _
+    rw [this]; rfl
+  have c0 := hcons 0 (by omega)
+  have c1 := hcons 1 (by omega)
+  have c2 := hcons 2 (by omega)
+  have c3 := hcons 3 (by omega)
+  have c4 := hcons 4 (by omega)
+  have e_hasw : st.hasw = false := hfr.hasw
+  have e_name : st.name = m.name := hfr.name
+  have e_desc : st.desc = m.desc := hfr.desc
+  have e_acc : st.acc = m.acc := hfr.acc
+  have e_au : st.au = m.au := hfr.au
+  have e_sqacc : st.sqacc = none := hfr.sqacc
+  have e_sqdesc : st.sqdesc = none := hfr.sqdesc
+  have e_per : st.per = List.replicate 3 none := hfr.per
+  have e_cut : st.cutset = List.replicate 6 false := hfr.cutset
+  have e_com : st.comments = m.comments := hfr.comments
+  have e_gf : st.gf = m.gf := hfr.gf
+  have e_gsT : st.gsTags = [] := hfr.gsTags
+  have e_gs : st.gs = [] := hfr.gs
+  have e_gcT : st.gcTags = [] := hfr.gcTags
+  have e_gc : st.gc = [] := hfr.gc
+  have e_grT : st.grTags = [] := hfr.grTags
+  have e_gr : st.gr = [] := hfr.gr
   unfold stoFinal
-  simp only [hnb, hn0, Bool.false_eq_true, if_false, hfind, hfr.hasw]
+  simp only [hnb, hn0, Bool.false_eq_true, if_false, hfind, e_hasw]
   congr 1
   unfold stoMsa stoProject
-  simp only [hnseq, hrows, hnames, h.alen, hfr.hasw, hfr.name, hfr.desc, hfr.acc, hfr.au, hfr.cons, hfr.sqacc, hfr.sqdesc, hfr.per,
-    hfr.cutset, hfr.comments, hfr.gf, hfr.gsTags, hfr.gs, hfr.gcTags, hfr.gc, hfr.grTags, hfr.gr]
+  simp only [hnseq, hrows, hnames, h.alen, e_hasw, e_name, e_desc, e_acc, e_au, c0, c1, c2, c3, c4, e_sqacc, e_sqdesc, e_per,
+    e_cut, e_com, e_gf, e_gsT, e_gs, e_gcT, e_gc, e_grT, e_gr]
+  obtain ⟨a1, a2, a3, a4, a5, a6, a7, a8, a9, a10, _, _, _, _, _, _, _⟩ := hp
   rcases m with ⟨digital, kp, alen, names, aseq, ax, hasw, wgt, name, desc, acc, au, ssCons, saCons, ppCons, rf, mm, sqacc, sqdesc,
     ss, sa, pp, cutoff, comments, gf, gs, gc, gr⟩
-  obtain ⟨e1, e2, e3, e4, e5, e6, e7, e8, e9, e10, e11, e12, e13, e14, e15, e16, e17, e18, e19, e20, e21⟩ := hp
-  simp only at e1 e2 e3 e4 e5 e6 e7 e8 e9 e10 e11 e12 e13 e14 e15 e16 e17 e18 e19 e20 e21
-  subst e1 e2 e3 e4 e5 e6 e7 e8 e9 e10 e11 e12 e13 e14 e15 e16 e17 e18 e19 e20 e21
-  simp [Msa.nseq]
+  simp only at a1 a2 a3 a4 a5 a6 a7 a8 a9 a10
+  subst a1 a2 a3 a4 a5 a6 a7 a8 a9 a10
+  simp [Msa.nseq, consF]
 
 /-! ## the round trip -/
 
-/-- **Stockholm / Pfam round trip on lines** (alignment without annotation) -/
+/-- **Stockholm / Pfam round trip on lines** (names, rows, `#=GC` consensus lines, `#=GF ID/AC/DE/AU`) -/
 theorem stoRead_writeLines (pfam : Bool) (abc : Option Abc) (cfg : Cfg) (enc : UInt8 → UInt8) (txt : Nat → Bytes) (m : Msa)
     (W : StoWritable abc cfg enc txt m) :
     stockholmRead cfg (stockholmBodyLines pfam abc m ++ [[47, 47]]) = (.ok (stoProject cfg m), []) := by
   have ha1 := W.alen1
   have hc : 0 < stoCpl pfam m := by unfold stoCpl; split <;> omega
-  rw [stoBody_plain pfam abc m W.plain W.nodup, blockStarts_cons' _ _ ha1 hc, List.flatMap_cons]
-  -- header and the blank line behind it
-  have h0 : stoStep cfg {} bSto10 = .inl { lead := false } := rfl
-  have hI0 := InBlk_init cfg enc txt m (stoW m (stoCpl pfam m) 0)
-  have hb : stoStep cfg { lead := false } [] = .inl { lead := false } := stoStep_blank cfg _ _ rfl rfl
-  -- first block
+  rw [stoBody_ann pfam abc m W.ann W.nodup, blockStarts_cons' _ _ ha1 hc, List.flatMap_cons]
+  have hhead := head_steps cfg m W.ann
+  have hI0 := InBlk_init cfg enc txt m W.ann (stoW m (stoCpl pfam m) 0)
+  obtain ⟨st1, hs1, h1⟩ := block_first abc cfg enc txt m W (stoCpl pfam m) _ hI0 hc
   have hw1 : 1 ≤ stoW m (stoCpl pfam m) 0 := by unfold stoW; split <;> omega
-  have hw2 : stoW m (stoCpl pfam m) 0 ≤ m.alen := by unfold stoW; split <;> omega
-  obtain ⟨st1, hs1, h1⟩ := sqlines_first abc cfg enc txt m W _ _ hI0 hw1 hw2 m.nseq (Nat.le_refl _)
   have hnext : 0 + stoW m (stoCpl pfam m) 0 = min (stoCpl pfam m) m.alen := by unfold stoW; split <;> omega
   obtain ⟨st2, p', w', hs2, h2, he, hw'⟩ :=
     blocks_later abc cfg enc txt m W _ hc (m.alen - stoCpl pfam m) (stoCpl pfam m) (Nat.le_refl _) st1 0 _ h1 hnext hw1
@@ -821,58 +1519,147 @@ theorem stoRead_writeLines (pfam : Bool) (abc : Option Abc) (cfg : Cfg) (enc : U
   rw [he] at h3
   have hfin := stoFinal_full abc cfg enc txt m W 0 st3 h3
   have hsteps : stepsFrom (stoStep cfg) {}
-      ([bSto10, []] ++ (stoPlainBlock abc m (stoCpl pfam m) 0 ++
-        (blockStartsFrom m.alen (stoCpl pfam m) (stoCpl pfam m)).flatMap (stoPlainBlock abc m (stoCpl pfam m)))) = .inl st2 := by
-    simp only [List.cons_append, List.nil_append, stepsFrom, h0, hb]
-    rw [stepsFrom_append _ _ _ _ _ (by simpa [stoPlainBlock] using hs1)]
+      (stoAnnHead m ++ (stoAnnBlock abc m (stoCpl pfam m) 0 ++
+        (blockStartsFrom m.alen (stoCpl pfam m) (stoCpl pfam m)).flatMap (stoAnnBlock abc m (stoCpl pfam m)))) = .inl st2 := by
+    rw [stepsFrom_append _ _ _ _ _ hhead, stepsFrom_append _ _ _ _ _ hs1]
     exact hs2
   unfold stockholmRead
   rw [runLines_append_inl _ _ _ _ _ _ hsteps]
   simp only [runLines, stoStep_slash cfg st2 st3 h2.fr.lead he3, hfin]
 
+theorem lineOk_app (pre val : Bytes) (h1 : (10 : UInt8) ∉ pre) (h2 : pre.getLast? = some 32) (h3 : (10 : UInt8) ∉ val)
+    (h4 : val.getLast? ≠ some 13) : lineOk (pre ++ val) := by
+  constructor
+  · intro h; rcases List.mem_append.mp h with h | h
+    · exact h1 h
+    · exact h3 h
+  · rw [List.getLast?_append]
+    cases hv : val.getLast? with
+    | none => simp [h2]
+    | some x => rw [hv] at h4; simpa using h4
+
+theorem chunk_lineOk (c : Bytes) (hc : ChunkOk c) : (10 : UInt8) ∉ c ∧ c.getLast? ≠ some 13 := by
+  refine ⟨fun h => absurd (hc.2 10 h).1 (by decide), fun h => ?_⟩
+  exact absurd (hc.2 13 (List.mem_of_getLast? h)).1 (by decide)
+
+theorem sp_lineOk (pre sp : Bytes) (hs : SpOk sp) : (pre ++ sp).getLast? = some 32 ∧ (10 : UInt8) ∉ sp := by
+  constructor
+  · rw [List.getLast?_append]
+    cases hl : sp.getLast? with
+    | none => exact absurd (List.getLast?_eq_none_iff.mp hl) hs.1
+    | some x => rw [hs.2 x (List.mem_of_getLast? hl)]; rfl
+  · intro h; exact absurd (hs.2 10 h) (by decide)
+
+theorem gfline_ok (L : StoLayout) (tag val : Bytes) (ht : (10 : UInt8) ∉ tag) (h3 : (10 : UInt8) ∉ val) (h4 : val.getLast? ≠ some 13) :
+    lineOk (gfLine L tag val) := by
+  obtain ⟨sp, hl, hs⟩ := gfline_shape L tag val
+  rw [hl, ← List.append_assoc, ← List.append_assoc]
+  obtain ⟨e1, e2⟩ := sp_lineOk (bGF ++ [32] ++ tag) sp hs
+  refine lineOk_app _ val ?_ e1 h3 h4
+  intro h
+  rcases List.mem_append.mp h with h | h
+  · rcases List.mem_append.mp h with h | h
+    · revert h; decide
+    · exact ht h
+  · exact e2 h
+
 theorem stoLines_ok (pfam : Bool) (abc : Option Abc) (cfg : Cfg) (enc : UInt8 → UInt8) (txt : Nat → Bytes) (m : Msa)
     (W : StoWritable abc cfg enc txt m) : ∀ l ∈ stockholmLines pfam abc m, lineOk l := by
   have hc : 0 < stoCpl pfam m := by have := W.alen1; unfold stoCpl; split <;> omega
+  have hp := W.ann
+  have hnil : lineOk ([] : Bytes) := ⟨by simp, by simp⟩
+  have hgc : ∀ pos, pos < m.alen → ∀ g, g < 5 → ∀ l ∈ gcSlotLines m pos (stoW m (stoCpl pfam m) pos) g, lineOk l := by
+    intro pos hlt g hg l hl
+    have hw1 : 1 ≤ stoW m (stoCpl pfam m) pos := by unfold stoW; split <;> omega
+    have hw2 : pos + stoW m (stoCpl pfam m) pos ≤ m.alen := by unfold stoW; split <;> omega
+    unfold gcSlotLines at hl
+    cases hs : (consF m).getD g none with
+    | none => rw [hs] at hl; simp [optLine] at hl
+    | some s =>
+      rw [hs] at hl
+      simp only [optLine, List.mem_singleton] at hl
+      subst hl
+      obtain ⟨sp, c, hline, hsp, hcq, _⟩ := gcline_shape m hp pos _ g hg s hs hw1 hw2
+      obtain ⟨_, _, _, htag⟩ := consTag_lt g hg
+      rw [hline, ← List.append_assoc, ← List.append_assoc]
+      obtain ⟨e1, e2⟩ := sp_lineOk (bGC ++ [32] ++ consTag.getD g []) sp hsp
+      obtain ⟨e3, e4⟩ := chunk_lineOk c hcq
+      refine lineOk_app _ c ?_ e1 e3 e4
+      intro h
+      rcases List.mem_append.mp h with h | h
+      · rcases List.mem_append.mp h with h | h
+        · revert h; decide
+        · exact htag h
+      · exact e2 h
   intro l hl
   unfold stockholmLines at hl
-  rw [stoBody_plain pfam abc m W.plain W.nodup] at hl
-  simp only [List.mem_append, List.mem_cons, List.mem_flatMap, List.not_mem_nil, or_false] at hl
-  have hnil : lineOk ([] : Bytes) := ⟨by simp, by simp⟩
-  rcases hl with ((hl | hl) | ⟨pos, hpos, hl⟩) | hl
-  · subst hl; exact ⟨by decide, by decide⟩
-  · subst hl; exact hnil
-  · have hlt := blockStarts_lt _ _ pos hpos
-    unfold stoPlainBlock at hl
-    rcases List.mem_append.mp hl with hl | hl
-    · split at hl
-      · simp at hl; subst hl; exact hnil
-      · simp at hl
-    · obtain ⟨j, hj, rfl⟩ := List.mem_map.mp hl
-      have hj' := List.mem_range.mp hj
-      have hw1 : 1 ≤ stoW m (stoCpl pfam m) pos := by unfold stoW; split <;> omega
-      have hw2 : pos + stoW m (stoCpl pfam m) pos ≤ m.alen := by unfold stoW; split <;> omega
-      obtain ⟨sp, c, hline, hsp, hcq, _⟩ := sqline_shape abc cfg enc txt m W pos _ j hj' hw1 hw2
-      rw [hline]
-      have hn := W.name_ok j hj'
-      constructor
-      · intro h10
-        rcases List.mem_append.mp h10 with h | h
-        · rcases List.mem_append.mp h with h | h
+  rw [stoBody_ann pfam abc m W.ann W.nodup] at hl
+  rcases List.mem_append.mp hl with hl | hl
+  · rcases List.mem_append.mp hl with hl | hl
+    · -- header
+      unfold stoAnnHead at hl
+      simp only [List.mem_append, List.mem_cons, List.not_mem_nil, or_false] at hl
+      rcases hl with hl | hl | hl | hl | hl | hl
+      · subst hl; exact ⟨by decide, by decide⟩
+      · cases hn : m.name with
+        | none => rw [hn] at hl; simp [optLine] at hl
+        | some v =>
+          rw [hn] at hl; simp only [optLine, List.mem_singleton] at hl; subst hl
+          have := hp.name_ok v hn
+          exact gfline_ok _ _ _ (by decide) this.2.1 this.2.2
+      · cases hn : m.acc with
+        | none => rw [hn] at hl; simp [optLine] at hl
+        | some v =>
+          rw [hn] at hl; simp only [optLine, List.mem_singleton] at hl; subst hl
+          have := hp.acc_ok v hn
+          exact gfline_ok _ _ _ (by decide) this.2.1 this.2.2
+      · cases hn : m.desc with
+        | none => rw [hn] at hl; simp [optLine] at hl
+        | some v =>
+          rw [hn] at hl; simp only [optLine, List.mem_singleton] at hl; subst hl
+          have := hp.desc_ok v hn
+          exact gfline_ok _ _ _ (by decide) this.2.2.1 this.2.2.2
+      · cases hn : m.au with
+        | none => rw [hn] at hl; simp [optLine] at hl
+        | some v =>
+          rw [hn] at hl; simp only [optLine, List.mem_singleton] at hl; subst hl
+          have := hp.au_ok v hn
+          exact gfline_ok _ _ _ (by decide) this.2.2.1 this.2.2.2
+      · subst hl; exact hnil
+    · obtain ⟨pos, hpos, hl⟩ := List.mem_flatMap.mp hl
+      have hlt := blockStarts_lt _ _ pos hpos
+      unfold stoAnnBlock at hl
+      rcases List.mem_append.mp hl with hl | hl
+      · split at hl
+        · simp at hl; subst hl; exact hnil
+        · simp at hl
+      · rcases List.mem_append.mp hl with hl | hl
+        · obtain ⟨j, hj, rfl⟩ := List.mem_map.mp hl
+          have hj' := List.mem_range.mp hj
+          have hw1 : 1 ≤ stoW m (stoCpl pfam m) pos := by unfold stoW; split <;> omega
+          have hw2 : pos + stoW m (stoCpl pfam m) pos ≤ m.alen := by unfold stoW; split <;> omega
+          obtain ⟨sp, c, hline, hsp, hcq, _⟩ := sqline_shape abc cfg enc txt m W pos _ j hj' hw1 hw2
+          rw [hline]
+          have hn := W.name_ok j hj'
+          obtain ⟨e1, e2⟩ := sp_lineOk (m.names.getD j []) sp hsp
+          obtain ⟨e3, e4⟩ := chunk_lineOk c hcq
+          refine lineOk_app _ c ?_ e1 e3 e4
+          intro h
+          rcases List.mem_append.mp h with h | h
           · exact hn.2.1 h
-          · exact absurd (hsp.2 10 h) (by decide)
-        · exact absurd (hcq.2 10 h).1 (by decide)
-      · intro h13
-        rw [List.getLast?_append] at h13
-        cases hcl : c.getLast? with
-        | none => exact hcq.1 (List.getLast?_eq_none_iff.mp hcl)
-        | some x =>
-          rw [hcl] at h13
-          simp at h13
-          subst h13
-          exact absurd (hcq.2 13 (List.mem_of_getLast? hcl)).1 (by decide)
-  · subst hl; exact ⟨by decide, by decide⟩
+          · exact e2 h
+        · rcases List.mem_append.mp hl with hl | hl
+          · exact hgc pos hlt 0 (by omega) l hl
+          · rcases List.mem_append.mp hl with hl | hl
+            · exact hgc pos hlt 1 (by omega) l hl
+            · rcases List.mem_append.mp hl with hl | hl
+              · exact hgc pos hlt 2 (by omega) l hl
+              · rcases List.mem_append.mp hl with hl | hl
+                · exact hgc pos hlt 3 (by omega) l hl
+                · exact hgc pos hlt 4 (by omega) l hl
+  · simp at hl; subst hl; exact ⟨by decide, by decide⟩
 
-/-- **Stockholm / Pfam round trip on bytes** (alignment without annotation) -/
+/-- **Stockholm / Pfam round trip on bytes** (names, rows, `#=GC` consensus lines, `#=GF ID/AC/DE/AU`) -/
 theorem stoRead_write (pfam : Bool) (abc : Option Abc) (cfg : Cfg) (enc : UInt8 → UInt8) (txt : Nat → Bytes) (m : Msa)
     (W : StoWritable abc cfg enc txt m) :
     stockholmRead cfg (splitLines (stockholmWrite pfam abc m)) = (.ok (stoProject cfg m), []) := by
